@@ -295,4 +295,2003 @@ theorem sepFold_conf_isEmpty (n : Nat) (T : List (SKey × (Id × Nat))) :
     rw [h] at this
     simp [confIds] at this
   · intro h; exact sepFold_conf_nil n T _ h
+
+theorem countP_flatten_of_nodup [DecidableEq α] (a : α) : ∀ (ls : List (List α)), (∀ l ∈ ls, l.Nodup) →
+    ls.flatten.countP (fun x => decide (x = a)) =
+      (ls.filter (fun l => l.any (fun x => decide (x = a)))).length
+  | [], _ => by simp
+  | l :: ls, h => by
+    have ih := countP_flatten_of_nodup a ls (fun l' hl' => h l' (List.mem_cons_of_mem _ hl'))
+    have hl := h l (by simp)
+    have hc : l.countP (fun x => decide (x = a)) = if a ∈ l then 1 else 0 := by
+      clear ih h
+      induction l with
+      | nil => simp
+      | cons x xs ihx =>
+        rw [List.nodup_cons] at hl
+        rw [List.countP_cons, ihx hl.2]
+        by_cases hx : x = a
+        · subst hx; simp [hl.1]
+        · simp [hx, Ne.symm hx]
+    have hany : l.any (fun x => decide (x = a)) = decide (a ∈ l) := by
+      by_cases ha : a ∈ l
+      · simp only [ha, decide_true, List.any_eq_true, decide_eq_true_eq]; exact ⟨a, ha, rfl⟩
+      · simp only [ha, decide_false, List.any_eq_false, decide_eq_true_eq]
+        intro x hx he; subst he; exact ha hx
+    simp only [List.flatten_cons, List.countP_append, ih, List.filter_cons, hc, hany]
+    by_cases ha : a ∈ l <;> simp [ha] <;> omega
+
+theorem cntOf_foldl_bump' [DecidableEq κ] (l : List κ) : ∀ (m : List (κ × Nat)) (k : κ),
+    cntOf (l.foldl bump m) k = cntOf m k + l.countP (fun x => decide (x = k)) := by
+  induction l with
+  | nil => intro m k; simp
+  | cons a t ih =>
+    intro m k
+    simp only [List.foldl_cons, ih, cntOf_bump, List.countP_cons]
+    by_cases h : a = k <;> simp [h] <;> omega
+
+def occCount (occ : List (SKey × List (Id × Nat))) (k : SKey) (v : Id) : Nat :=
+  match AL.get occ k with
+  | some m => cntOf m v
+  | none => 0
+
+structure OccWF (occ : List (SKey × List (Id × Nat))) : Prop where
+  keys : (AL.keys occ).Nodup
+  inner : ∀ p ∈ occ, (AL.keys p.2).Nodup
+  pos : ∀ p ∈ occ, ∀ q ∈ p.2, 0 < q.2
+
+theorem bump_pos [DecidableEq κ] : ∀ (m : List (κ × Nat)) (k : κ), (∀ q ∈ m, 0 < q.2) →
+    ∀ q ∈ bump m k, 0 < q.2
+  | [], k, _, q, hq => by simp [bump] at hq; subst hq; simp
+  | (a, c) :: t, k, h, q, hq => by
+    by_cases ha : a = k
+    · simp only [bump, ha, if_true, List.mem_cons] at hq
+      rcases hq with rfl | hq
+      · simp
+      · exact h q (List.mem_cons_of_mem _ hq)
+    · simp only [bump, ha, if_false, List.mem_cons] at hq
+      rcases hq with rfl | hq
+      · exact h _ (by simp)
+      · exact bump_pos t k (fun q hq => h q (List.mem_cons_of_mem _ hq)) q hq
+
+theorem keys_occAdd : ∀ (occ : List (SKey × List (Id × Nat))) (k : SKey) (v : Id) (k' : SKey),
+    k' ∈ AL.keys (occAdd occ k v) ↔ k' = k ∨ k' ∈ AL.keys occ
+  | [], k, v, k' => by simp [occAdd, AL.keys]
+  | (q, m) :: t, k, v, k' => by
+    have ih := keys_occAdd t k v k'
+    simp only [AL.keys] at ih ⊢
+    by_cases hq : q = k
+    · subst hq
+      simp only [occAdd, if_true, List.map_cons, List.mem_cons]
+      constructor
+      · rintro (h | h); exact .inl h; exact .inr (.inr h)
+      · rintro (h | h | h); exact .inl h; exact .inl h; exact .inr h
+    · simp only [occAdd, hq, if_false, List.map_cons, List.mem_cons, ih]
+      constructor
+      · rintro (h | h | h); exact .inr (.inl h); exact .inl h; exact .inr (.inr h)
+      · rintro (h | h | h); exact .inr (.inl h); exact .inl h; exact .inr (.inr h)
+
+theorem occAdd_wf : ∀ (occ : List (SKey × List (Id × Nat))) (k : SKey) (v : Id), OccWF occ →
+    OccWF (occAdd occ k v)
+  | [], k, v, _ => by
+    refine ⟨by simp [occAdd, AL.keys], ?_, ?_⟩
+    · intro p hp; simp [occAdd] at hp; subst hp; simp [AL.keys]
+    · intro p hp q hq; simp [occAdd] at hp; subst hp; simp at hq; subst hq; simp
+  | (a, m) :: t, k, v, wf => by
+    have wft : OccWF t := by
+      refine ⟨?_, fun p hp => wf.inner p (List.mem_cons_of_mem _ hp),
+        fun p hp => wf.pos p (List.mem_cons_of_mem _ hp)⟩
+      have := wf.keys
+      simp only [AL.keys, List.map_cons, List.nodup_cons] at this
+      exact this.2
+    have hk := wf.keys
+    simp only [AL.keys, List.map_cons, List.nodup_cons] at hk
+    by_cases ha : a = k
+    · subst ha
+      simp only [occAdd, if_true]
+      refine ⟨?_, ?_, ?_⟩
+      · simpa [AL.keys] using hk
+      · intro p hp
+        rcases List.mem_cons.mp hp with rfl | hp
+        · exact (keys_bump_nodup m v (wf.inner (a, m) (by simp))).1
+        · exact wf.inner p (List.mem_cons_of_mem _ hp)
+      · intro p hp
+        rcases List.mem_cons.mp hp with rfl | hp
+        · exact bump_pos m v (wf.pos (a, m) (by simp))
+        · exact wf.pos p (List.mem_cons_of_mem _ hp)
+    · have ih := occAdd_wf t k v wft
+      simp only [occAdd, ha, if_false]
+      refine ⟨?_, ?_, ?_⟩
+      · simp only [AL.keys, List.map_cons, List.nodup_cons]
+        refine ⟨?_, ih.keys⟩
+        intro h
+        rcases (keys_occAdd t k v a).mp h with h | h
+        · exact ha h
+        · exact hk.1 h
+      · intro p hp
+        rcases List.mem_cons.mp hp with rfl | hp
+        · exact wf.inner _ (by simp)
+        · exact ih.inner p hp
+      · intro p hp
+        rcases List.mem_cons.mp hp with rfl | hp
+        · exact wf.pos _ (by simp)
+        · exact ih.pos p hp
+
+theorem occCount_occAdd : ∀ (occ : List (SKey × List (Id × Nat))) (k : SKey) (v : Id) (k' : SKey) (v' : Id),
+    occCount (occAdd occ k v) k' v' = occCount occ k' v' + if k = k' ∧ v = v' then 1 else 0
+  | [], k, v, k', v' => by
+    by_cases hk : k = k' <;> by_cases hv : v = v' <;> simp [occAdd, occCount, AL.get, cntOf, hk, hv]
+  | (a, m) :: t, k, v, k', v' => by
+    have ih := occCount_occAdd t k v k' v'
+    unfold occCount at ih ⊢
+    by_cases ha : a = k
+    · subst ha
+      by_cases hk : a = k'
+      · subst hk
+        simp only [occAdd, if_true, AL.get, cntOf_bump]
+        by_cases hv : v = v' <;> simp [hv]
+      · simp [occAdd, AL.get, hk]
+    · by_cases hk : a = k'
+      · subst hk
+        simp [occAdd, ha, AL.get, Ne.symm ha]
+      · simp only [occAdd, ha, if_false, AL.get, hk]
+        exact ih
+
+theorem occ_foldl (l : List (SKey × Id)) : ∀ (occ : List (SKey × List (Id × Nat))), OccWF occ →
+    OccWF (l.foldl (fun acc kv => occAdd acc kv.1 kv.2) occ) ∧
+    ∀ k v, occCount (l.foldl (fun acc kv => occAdd acc kv.1 kv.2) occ) k v =
+      occCount occ k v + l.countP (fun x => decide (x = (k, v))) := by
+  induction l with
+  | nil => intro occ wf; exact ⟨wf, by simp⟩
+  | cons a t ih =>
+    intro occ wf
+    obtain ⟨h1, h2⟩ := ih (occAdd occ a.1 a.2) (occAdd_wf occ a.1 a.2 wf)
+    refine ⟨h1, ?_⟩
+    intro k v
+    simp only [List.foldl_cons, h2, occCount_occAdd, List.countP_cons]
+    by_cases h : a = (k, v)
+    · subst h; simp; omega
+    · have : ¬ (a.1 = k ∧ a.2 = v) := by
+        intro ⟨e1, e2⟩; apply h; cases a; simp_all
+      simp [h, this]
+
+theorem mem_occ_iff {occ : List (SKey × List (Id × Nat))} (wf : OccWF occ) {k : SKey} {v : Id} {c : Nat} :
+    (∃ m, (k, m) ∈ occ ∧ (v, c) ∈ m) ↔ 0 < c ∧ occCount occ k v = c := by
+  constructor
+  · rintro ⟨m, hm, hvc⟩
+    refine ⟨wf.pos _ hm _ hvc, ?_⟩
+    simp [occCount, AL.get_of_mem_nodup wf.keys hm, cntOf,
+      AL.get_of_mem_nodup (wf.inner _ hm) hvc]
+  · rintro ⟨hpos, hc⟩
+    unfold occCount at hc
+    cases hg : AL.get occ k with
+    | none => rw [hg] at hc; simp at hc; omega
+    | some m =>
+      rw [hg] at hc
+      simp only [cntOf] at hc
+      cases hg2 : AL.get m v with
+      | none => rw [hg2] at hc; simp at hc; omega
+      | some c' =>
+        rw [hg2] at hc; simp at hc; subst hc
+        exact ⟨m, AL.get_some_mem hg, AL.get_some_mem hg2⟩
+
+/-- Every state set is a map: its keys are distinct. -/
+def SetsWF (sets : List StateMap) : Prop := ∀ s ∈ sets, (AL.keys s).Nodup
+
+/-- `k ↦ v` in every state set, and there is at least one state set. -/
+def Unconf (sets : List StateMap) (k : SKey) (v : Id) : Prop :=
+  sets ≠ [] ∧ ∀ s ∈ sets, AL.get s k = some v
+
+theorem nodup_of_keys_nodup [DecidableEq κ] {m : List (κ × β)} (h : (AL.keys m).Nodup) : m.Nodup := by
+  induction m with
+  | nil => simp
+  | cons a t ih =>
+    simp only [AL.keys, List.map_cons, List.nodup_cons] at h
+    refine List.nodup_cons.mpr ⟨?_, ih h.2⟩
+    intro hm; exact h.1 (List.mem_map_of_mem hm)
+
+theorem filter_length_eq_iff {p : α → Bool} : ∀ {l : List α},
+    (l.filter p).length = l.length ↔ ∀ x ∈ l, p x = true
+  | [] => by simp
+  | x :: xs => by
+    have ih := filter_length_eq_iff (p := p) (l := xs)
+    have hle := List.length_filter_le p xs
+    by_cases hx : p x = true
+    · simp [List.filter_cons, hx, ih]
+    · simp [List.filter_cons, hx]; omega
+
+def hasPair (k : SKey) (v : Id) (s : StateMap) : Bool := s.any (fun x => decide (x = (k, v)))
+
+theorem hasPair_iff {k : SKey} {v : Id} {s : StateMap} : hasPair k v s = true ↔ (k, v) ∈ s := by
+  simp only [hasPair, List.any_eq_true, decide_eq_true_eq]
+  constructor
+  · rintro ⟨x, hx, rfl⟩; exact hx
+  · intro h; exact ⟨_, h, rfl⟩
+
+theorem mem_triples_occurrences {o : Orders} (ho : o.Valid) {sets : List StateMap} (wf : SetsWF sets)
+    {k : SKey} {v : Id} {c : Nat} :
+    (k, (v, c)) ∈ triples o (occurrences sets) ↔
+      0 < c ∧ (sets.filter (hasPair k v)).length = c := by
+  rw [mem_triples ho]
+  have hf := occ_foldl sets.flatten [] ⟨by simp [AL.keys], by simp, by simp⟩
+  unfold occurrences
+  rw [mem_occ_iff hf.1, hf.2]
+  have : occCount [] k v = 0 := rfl
+  rw [this, Nat.zero_add, countP_flatten_of_nodup (k, v) sets (fun s hs => nodup_of_keys_nodup (wf s hs))]
+  rfl
+
+theorem mem_iff_get {s : StateMap} (h : (AL.keys s).Nodup) {k : SKey} {v : Id} :
+    (k, v) ∈ s ↔ AL.get s k = some v :=
+  ⟨AL.get_of_mem_nodup h, AL.get_some_mem⟩
+
+theorem mem_triples_n {o : Orders} (ho : o.Valid) {sets : List StateMap} (wf : SetsWF sets)
+    {k : SKey} {v : Id} :
+    (k, (v, sets.length)) ∈ triples o (occurrences sets) ↔ Unconf sets k v := by
+  rw [mem_triples_occurrences ho wf, filter_length_eq_iff]
+  unfold Unconf
+  constructor
+  · rintro ⟨h1, h2⟩
+    refine ⟨by intro h; subst h; simp at h1, ?_⟩
+    intro s hs
+    exact (mem_iff_get (wf s hs)).mp (hasPair_iff.mp (h2 s hs))
+  · rintro ⟨h1, h2⟩
+    refine ⟨List.length_pos_iff.mpr h1, ?_⟩
+    intro s hs
+    exact hasPair_iff.mpr ((mem_iff_get (wf s hs)).mpr (h2 s hs))
+
+theorem Unconf.unique {sets : List StateMap} {k : SKey} {v v' : Id} (h : Unconf sets k v)
+    (h' : Unconf sets k v') : v = v' := by
+  obtain ⟨hne, h1⟩ := h
+  cases sets with
+  | nil => exact absurd rfl hne
+  | cons s t =>
+    have a := h1 s (by simp)
+    have b := h'.2 s (by simp)
+    rw [a] at b; exact Option.some.inj b
+
+/-- **separate, unconflicted part**: `k ↦ v` is in the unconflicted map iff every state set maps
+`k` to `v`. -/
+theorem separate_clean {o : Orders} (ho : o.Valid) {sets : List StateMap} (wf : SetsWF sets)
+    (k : SKey) (v : Id) : AL.get (separate o sets).1 k = some v ↔ Unconf sets k v := by
+  rw [separate_eq_sepFold]
+  constructor
+  · intro h
+    rcases sepFold_clean_sound _ _ _ k v h with h | h
+    · exact (mem_triples_n ho wf).mp h
+    · simp at h
+  · intro h
+    have hm := (mem_triples_n ho wf).mpr h
+    have := sepFold_clean_complete sets.length _ ([], []) k v hm
+    cases hg : AL.get (sepFold sets.length (triples o (occurrences sets)) ([], [])).1 k with
+    | none => rw [hg] at this; cases this
+    | some v' =>
+      rcases sepFold_clean_sound _ _ _ k v' hg with h' | h'
+      · have := (mem_triples_n ho wf).mp h'
+        rw [h.unique this]
+      · simp at h'
+
+/-- **separate, conflicted part**: the ids listed in the conflicted map are the values some state
+set gives to some key without all state sets agreeing on it. -/
+theorem separate_conf {o : Orders} (ho : o.Valid) {sets : List StateMap} (wf : SetsWF sets)
+    (id : Id) : id ∈ confIds (separate o sets).2 ↔
+      ∃ k, (∃ s ∈ sets, AL.get s k = some id) ∧ ¬ Unconf sets k id := by
+  rw [separate_eq_sepFold, sepFold_conf]
+  simp only [confIds, List.map_nil, List.flatten_nil, List.not_mem_nil, or_false]
+  constructor
+  · rintro ⟨k, c, hm, hc⟩
+    refine ⟨k, ?_, ?_⟩
+    · obtain ⟨hpos, hlen⟩ := (mem_triples_occurrences ho wf).mp hm
+      rw [← hlen] at hpos
+      obtain ⟨s, hs⟩ := List.exists_mem_of_length_pos hpos
+      obtain ⟨hs1, hs2⟩ := List.mem_filter.mp hs
+      exact ⟨s, hs1, (mem_iff_get (wf s hs1)).mp (hasPair_iff.mp hs2)⟩
+    · intro hu
+      have := (mem_triples_occurrences ho wf).mp ((mem_triples_n ho wf).mpr hu)
+      have h2 := (mem_triples_occurrences ho wf).mp hm
+      omega
+  · rintro ⟨k, ⟨s, hs, hg⟩, hnu⟩
+    refine ⟨k, (sets.filter (hasPair k id)).length, ?_, ?_⟩
+    · rw [mem_triples_occurrences ho wf]
+      refine ⟨?_, rfl⟩
+      apply List.length_pos_of_mem (a := s)
+      exact List.mem_filter.mpr ⟨hs, hasPair_iff.mpr ((mem_iff_get (wf s hs)).mpr hg)⟩
+    · intro hlen
+      apply hnu
+      apply (mem_triples_n ho wf).mp
+      rw [mem_triples_occurrences ho wf]
+      refine ⟨?_, hlen⟩
+      rw [← hlen]
+      apply List.length_pos_of_mem (a := s)
+      exact List.mem_filter.mpr ⟨hs, hasPair_iff.mpr ((mem_iff_get (wf s hs)).mpr hg)⟩
+
+/-- No conflict: the conflicted map is empty iff all state sets agree on every key any of them has. -/
+theorem separate_conf_nil {o : Orders} (ho : o.Valid) {sets : List StateMap} (wf : SetsWF sets) :
+    (separate o sets).2 = [] ↔ ∀ k id, (∃ s ∈ sets, AL.get s k = some id) → Unconf sets k id := by
+  rw [separate_eq_sepFold, sepFold_conf_isEmpty]
+  constructor
+  · intro h k id ⟨s, hs, hg⟩
+    apply (mem_triples_n ho wf).mp
+    have hm : (k, (id, (sets.filter (hasPair k id)).length)) ∈
+        triples o (occurrences sets) := by
+      rw [mem_triples_occurrences ho wf]
+      refine ⟨?_, rfl⟩
+      apply List.length_pos_of_mem (a := s)
+      exact List.mem_filter.mpr ⟨hs, hasPair_iff.mpr ((mem_iff_get (wf s hs)).mpr hg)⟩
+    have := h _ hm
+    simp only [] at this
+    rw [this] at hm; exact hm
+  · intro h t ht
+    obtain ⟨k, v, c⟩ := t
+    simp only []
+    obtain ⟨hpos, hlen⟩ := (mem_triples_occurrences ho wf).mp ht
+    rw [← hlen] at hpos
+    obtain ⟨s, hs⟩ := List.exists_mem_of_length_pos hpos
+    obtain ⟨hs1, hs2⟩ := List.mem_filter.mp hs
+    have hu := h k v ⟨s, hs1, (mem_iff_get (wf s hs1)).mp (hasPair_iff.mp hs2)⟩
+    have := (mem_triples_occurrences ho wf).mp ((mem_triples_n ho wf).mpr hu)
+    omega
+/-! ### `add_event_and_auth_chain_to_graph` -/
+
+/-- `HashSet::insert`. -/
+def insSet (es : List Id) (a : Id) : List Id := if a ∈ es then es else es ++ [a]
+
+def addAll (es : List Id) (as : List Id) : List Id := as.foldl insSet es
+
+theorem mem_insSet {es : List Id} {a c : Id} : c ∈ insSet es a ↔ c ∈ es ∨ c = a := by
+  unfold insSet; split
+  · constructor
+    · exact .inl
+    · rintro (h | rfl); exact h; assumption
+  · simp
+
+theorem nodup_insSet {es : List Id} (a : Id) (h : es.Nodup) : (insSet es a).Nodup := by
+  unfold insSet; split
+  · exact h
+  next hn =>
+    rw [List.nodup_append]
+    exact ⟨h, by simp, by intro x hx y hy; simp at hy; subst hy; intro e; subst e; exact hn hx⟩
+
+theorem mem_addAll {as : List Id} : ∀ {es : List Id} {c : Id}, c ∈ addAll es as ↔ c ∈ es ∨ c ∈ as := by
+  induction as with
+  | nil => intro es c; simp [addAll]
+  | cons a t ih =>
+    intro es c
+    simp only [addAll, List.foldl_cons] at ih ⊢
+    rw [ih, mem_insSet]
+    simp only [List.mem_cons]
+    constructor
+    · rintro ((h | h) | h); exact .inl h; exact .inr (.inl h); exact .inr (.inr h)
+    · rintro (h | h | h); exact .inl (.inl h); exact .inl (.inr h); exact .inr h
+
+theorem nodup_addAll {as : List Id} : ∀ {es : List Id}, es.Nodup → (addAll es as).Nodup := by
+  induction as with
+  | nil => intro es h; exact h
+  | cons a t ih => intro es h; exact ih (nodup_insSet a h)
+
+theorem contains_eq_mem_nodes (g : Graph) (x : Id) : AL.contains g x = decide (x ∈ g.nodes) := by
+  by_cases h : x ∈ g.nodes
+  · simp only [h, decide_true, AL.contains, List.any_eq_true, decide_eq_true_eq]
+    obtain ⟨p, hp, he⟩ := List.mem_map.mp h
+    exact ⟨p, hp, he⟩
+  · simp only [h, decide_false, AL.contains, List.any_eq_false, decide_eq_true_eq]
+    intro p hp he; apply h; rw [← he]; exact List.mem_map_of_mem hp
+
+/-- Replace the edge list of `eid`. -/
+def setEdges (g : Graph) (eid : Id) (f : List Id → List Id) : Graph :=
+  g.map (fun ne => if ne.1 = eid then (ne.1, f ne.2) else ne)
+
+theorem nodes_setEdges (g : Graph) (eid : Id) (f : List Id → List Id) :
+    (setEdges g eid f).nodes = g.nodes := by
+  unfold setEdges Graph.nodes
+  rw [List.map_map]
+  apply List.map_congr_left
+  intro a _; simp only [Function.comp]; split <;> rfl
+
+theorem graphAddEdge_eq : ∀ (g : Graph) (eid a : Id), g.nodes.Nodup → eid ∈ g.nodes →
+    graphAddEdge g eid a = some (setEdges g eid (fun es => insSet es a))
+  | [], _, _, _, h => by simp [Graph.nodes] at h
+  | (q, es) :: t, eid, a, hn, hm => by
+    simp only [Graph.nodes, List.map_cons, List.nodup_cons] at hn
+    by_cases hq : q = eid
+    · subst hq
+      have : setEdges t q (fun es => insSet es a) = t := by
+        unfold setEdges
+        conv => rhs; rw [← List.map_id t]
+        apply List.map_congr_left
+        intro x hx
+        have : x.1 ≠ q := by intro h; apply hn.1; rw [← h]; exact List.mem_map_of_mem hx
+        simp [this]
+      simp only [graphAddEdge, if_true]
+      simp only [setEdges, List.map_cons, if_true] at this ⊢
+      rw [this]; rfl
+    · have hm' : eid ∈ Graph.nodes t := by
+        simp only [Graph.nodes, List.map_cons, List.mem_cons] at hm
+        rcases hm with h | h
+        · exact absurd h.symm hq
+        · exact h
+      simp only [graphAddEdge, hq, if_false, graphAddEdge_eq t eid a hn.2 hm']
+      simp [setEdges, hq]
+
+theorem setEdges_setEdges (g : Graph) (eid : Id) (f f' : List Id → List Id) :
+    setEdges (setEdges g eid f) eid f' = setEdges g eid (fun es => f' (f es)) := by
+  unfold setEdges
+  rw [List.map_map]
+  apply List.map_congr_left
+  intro a _; simp only [Function.comp]
+  by_cases h : a.1 = eid <;> simp [h]
+
+theorem setEdges_id (g : Graph) (eid : Id) : setEdges g eid (fun es => es) = g := by
+  unfold setEdges
+  conv => rhs; rw [← List.map_id g]
+  apply List.map_congr_left
+  intro a _; split <;> rfl
+
+/-- The `for aid in auth_events` loop: all conflicted auth events become edges of `eid`; those that
+are not yet graph keys are pushed. -/
+theorem addAuthEdges_eq (allConf : List Id) (eid : Id) : ∀ (auths : List Id) (g : Graph) (st : List Id),
+    g.nodes.Nodup → eid ∈ g.nodes →
+    addAuthEdges allConf eid auths g st =
+      .ok (setEdges g eid (fun es => addAll es (auths.filter (fun a => decide (a ∈ allConf)))),
+           (auths.filter (fun a => decide (a ∈ allConf) && !AL.contains g a)).reverse ++ st)
+  | [], g, st, _, _ => by simp [addAuthEdges, addAll, setEdges_id]
+  | a :: rest, g, st, hn, hm => by
+    by_cases ha : a ∈ allConf
+    · simp only [addAuthEdges, ha, if_true, graphAddEdge_eq g eid a hn hm]
+      have hn' : (setEdges g eid (fun es => insSet es a)).nodes.Nodup := by
+        rw [nodes_setEdges]; exact hn
+      have hm' : eid ∈ (setEdges g eid (fun es => insSet es a)).nodes := by
+        rw [nodes_setEdges]; exact hm
+      rw [addAuthEdges_eq allConf eid rest _ _ hn' hm', setEdges_setEdges]
+      have hc : ∀ x, AL.contains (setEdges g eid (fun es => insSet es a)) x = AL.contains g x := by
+        intro x; rw [contains_eq_mem_nodes, contains_eq_mem_nodes, nodes_setEdges]
+      congr 2
+      · simp [List.filter_cons, ha, addAll]
+      · by_cases hg : AL.contains g a = true
+        · simp [List.filter_cons, ha, hg, hc]
+        · simp only [Bool.not_eq_true] at hg
+          simp [List.filter_cons, ha, hg, hc]
+    · simp only [addAuthEdges, ha, if_false]
+      rw [addAuthEdges_eq allConf eid rest g st hn hm]
+      simp [List.filter_cons, ha]
+
+/-- The auth events of `n` inside the full conflicted set. -/
+def children (fetch : Id → Option Event) (allConf : List Id) (n : Id) : List Id :=
+  (authEventsOf fetch n).filter (fun a => decide (a ∈ allConf))
+
+/-- `n` is reachable from `r` along auth-event edges that stay inside the full conflicted set. -/
+inductive Path (fetch : Id → Option Event) (allConf : List Id) (r : Id) : Id → Prop
+  | refl : Path fetch allConf r r
+  | step {n c : Id} : Path fetch allConf r n → c ∈ children fetch allConf n → Path fetch allConf r c
+
+theorem Path.trans {fetch : Id → Option Event} {allConf : List Id} {a b c : Id}
+    (h1 : Path fetch allConf a b) (h2 : Path fetch allConf b c) : Path fetch allConf a c := by
+  induction h2 with
+  | refl => exact h1
+  | step _ hc ih => exact .step ih hc
+
+structure GInv (fetch : Id → Option Event) (allConf : List Id) (g : Graph) : Prop where
+  nodup : g.nodes.Nodup
+  edges : ∀ n es, (n, es) ∈ g → es.Nodup ∧ ∀ c, c ∈ es ↔ c ∈ children fetch allConf n
+
+theorem graphInsertNode_of_mem {g : Graph} {eid : Id} (h : eid ∈ g.nodes) :
+    graphInsertNode g eid = g := by
+  have hc : AL.contains g eid = true := by rw [contains_eq_mem_nodes]; simp [h]
+  simp [graphInsertNode, hc]
+
+theorem graphInsertNode_of_not_mem {g : Graph} {eid : Id} (h : eid ∉ g.nodes) :
+    graphInsertNode g eid = g ++ [(eid, [])] := by
+  have hc : AL.contains g eid = false := by rw [contains_eq_mem_nodes]; simp [h]
+  simp [graphInsertNode, hc]
+
+theorem nodes_append_single (g : Graph) (eid : Id) : (g ++ [(eid, [])]).nodes = g.nodes ++ [eid] := by
+  simp [Graph.nodes]
+
+theorem mem_graphInsertNode {g : Graph} {eid : Id} {p : Id × List Id} :
+    p ∈ graphInsertNode g eid ↔ p ∈ g ∨ (eid ∉ g.nodes ∧ p = (eid, [])) := by
+  by_cases h : eid ∈ g.nodes
+  · rw [graphInsertNode_of_mem h]; simp [h]
+  · rw [graphInsertNode_of_not_mem h]; simp [h]
+
+theorem nodes_graphInsertNode {g : Graph} {eid n : Id} :
+    n ∈ (graphInsertNode g eid).nodes ↔ n = eid ∨ n ∈ g.nodes := by
+  by_cases h : eid ∈ g.nodes
+  · rw [graphInsertNode_of_mem h]
+    constructor
+    · exact .inr
+    · rintro (rfl | h'); exact h; exact h'
+  · rw [graphInsertNode_of_not_mem h, nodes_append_single]; simp [or_comm]
+
+theorem nodup_graphInsertNode {g : Graph} {eid : Id} (h : g.nodes.Nodup) :
+    (graphInsertNode g eid).nodes.Nodup := by
+  by_cases hm : eid ∈ g.nodes
+  · rw [graphInsertNode_of_mem hm]; exact h
+  · rw [graphInsertNode_of_not_mem hm, nodes_append_single, List.nodup_append]
+    exact ⟨h, by simp, by intro a ha b hb; simp at hb; subst hb; intro e; subst e; exact hm ha⟩
+
+theorem mem_setEdges {g : Graph} {eid : Id} {f : List Id → List Id} {n : Id} {es : List Id} :
+    (n, es) ∈ setEdges g eid f ↔
+      (n ≠ eid ∧ (n, es) ∈ g) ∨ (n = eid ∧ ∃ es0, (eid, es0) ∈ g ∧ es = f es0) := by
+  unfold setEdges
+  simp only [List.mem_map]
+  constructor
+  · rintro ⟨⟨a, b⟩, hm, he⟩
+    by_cases ha : a = eid
+    · subst ha
+      simp only [if_true, Prod.mk.injEq] at he
+      exact .inr ⟨he.1.symm, b, hm, he.2.symm⟩
+    · simp only [ha, if_false, Prod.mk.injEq] at he
+      obtain ⟨rfl, rfl⟩ := he
+      exact .inl ⟨ha, hm⟩
+  · rintro (⟨h1, h2⟩ | ⟨rfl, es0, h2, rfl⟩)
+    · exact ⟨(n, es), h2, by simp [h1]⟩
+    · exact ⟨(n, es0), h2, by simp⟩
+
+/-- One iteration of `while let Some(eid) = state.pop()`. -/
+theorem dfs_step {fetch : Id → Option Event} {allConf : List Id} {g : Graph}
+    (inv : GInv fetch allConf g) (eid : Id) (st : List Id) :
+    ∃ (g' : Graph) (pushes : List Id), addAuthEdges allConf eid (authEventsOf fetch eid) (graphInsertNode g eid) st
+        = .ok (g', pushes.reverse ++ st) ∧
+      GInv fetch allConf g' ∧
+      (∀ n, n ∈ g'.nodes ↔ n = eid ∨ n ∈ g.nodes) ∧
+      (∀ c, c ∈ pushes ↔ c ∈ children fetch allConf eid ∧ c ≠ eid ∧ c ∉ g.nodes) ∧
+      pushes.length ≤ (authEventsOf fetch eid).length := by
+  have hn1 := nodup_graphInsertNode (eid := eid) inv.nodup
+  have hm1 : eid ∈ (graphInsertNode g eid).nodes := nodes_graphInsertNode.mpr (.inl rfl)
+  refine ⟨_, _, addAuthEdges_eq allConf eid _ _ st hn1 hm1, ?_, ?_, ?_, ?_⟩
+  · constructor
+    · rw [nodes_setEdges]; exact hn1
+    · intro n es hm
+      rcases mem_setEdges.mp hm with ⟨hne, hm'⟩ | ⟨rfl, es0, hm', rfl⟩
+      · rcases mem_graphInsertNode.mp hm' with h | ⟨_, h⟩
+        · exact inv.edges n es h
+        · simp only [Prod.mk.injEq] at h; exact absurd h.1 hne
+      · have h0 : es0.Nodup ∧ ∀ c, c ∈ es0 → c ∈ children fetch allConf n := by
+          rcases mem_graphInsertNode.mp hm' with h | ⟨_, h⟩
+          · have := inv.edges n es0 h; exact ⟨this.1, fun c hc => (this.2 c).mp hc⟩
+          · simp only [Prod.mk.injEq] at h; rw [h.2]; simp
+        refine ⟨nodup_addAll h0.1, ?_⟩
+        intro c
+        rw [mem_addAll]
+        constructor
+        · rintro (h | h); exact h0.2 c h; exact h
+        · intro h; exact .inr h
+  · intro n
+    rw [nodes_setEdges]; exact nodes_graphInsertNode
+  · intro c
+    simp only [List.mem_filter, Bool.and_eq_true, decide_eq_true_eq, Bool.not_eq_true',
+      contains_eq_mem_nodes, decide_eq_false_iff_not, nodes_graphInsertNode, not_or, children]
+    constructor
+    · rintro ⟨h1, h2, h3, h4⟩; exact ⟨⟨h1, h2⟩, h3, h4⟩
+    · rintro ⟨⟨h1, h2⟩, h3, h4⟩; exact ⟨h1, h2, h3, h4⟩
+  · exact List.length_filter_le _ _
+
+/-- Every child of a graph node is a graph node or still on the stack. -/
+def Closed (fetch : Id → Option Event) (allConf : List Id) (g : Graph) (st : List Id) : Prop :=
+  ∀ n ∈ g.nodes, ∀ c ∈ children fetch allConf n, c ∈ g.nodes ∨ c ∈ st
+
+/-- What one `add_event_and_auth_chain_to_graph` run that does not run out of fuel computes. -/
+theorem dfs_ok {fetch : Id → Option Event} {allConf : List Id} : ∀ (fuel : Nat) (st : List Id) (g g' : Graph),
+    dfs fetch allConf fuel st g = .ok g' → GInv fetch allConf g → Closed fetch allConf g st →
+    GInv fetch allConf g' ∧ Closed fetch allConf g' [] ∧
+    (∀ n ∈ g.nodes, n ∈ g'.nodes) ∧ (∀ n ∈ st, n ∈ g'.nodes) ∧
+    (∀ n ∈ g'.nodes, n ∈ g.nodes ∨ ∃ r ∈ st, Path fetch allConf r n)
+  | fuel, [], g, g', h, inv, cl => by
+    cases fuel <;> (simp only [dfs] at h; cases h; exact ⟨inv, cl, fun n h => h, by simp, fun n h => .inl h⟩)
+  | 0, _ :: _, _, _, h, _, _ => by simp [dfs] at h
+  | fuel + 1, eid :: st, g, g', h, inv, cl => by
+    obtain ⟨g1, pushes, hstep, inv1, hnodes, hpush, _⟩ := dfs_step inv eid st
+    simp only [dfs, hstep] at h
+    have cl1 : Closed fetch allConf g1 (pushes.reverse ++ st) := by
+      intro n hn c hc
+      rcases (hnodes n).mp hn with rfl | hn'
+      · by_cases hcg : c ∈ g1.nodes
+        · exact .inl hcg
+        · right
+          have : c ≠ n ∧ c ∉ g.nodes := by
+            constructor
+            · intro e; apply hcg; rw [hnodes]; exact .inl e
+            · intro e; apply hcg; rw [hnodes]; exact .inr e
+          simp [(hpush c).mpr ⟨hc, this.1, this.2⟩]
+      · rcases cl n hn' c hc with h1 | h1
+        · exact .inl ((hnodes c).mpr (.inr h1))
+        · rcases List.mem_cons.mp h1 with rfl | h1
+          · exact .inl ((hnodes c).mpr (.inl rfl))
+          · exact .inr (by simp [h1])
+    obtain ⟨i1, i2, i3, i4, i5⟩ := dfs_ok fuel _ g1 g' h inv1 cl1
+    refine ⟨i1, i2, ?_, ?_, ?_⟩
+    · intro n hn; exact i3 n ((hnodes n).mpr (.inr hn))
+    · intro n hn
+      rcases List.mem_cons.mp hn with rfl | hn
+      · exact i3 n ((hnodes n).mpr (.inl rfl))
+      · exact i4 n (by simp [hn])
+    · intro n hn
+      rcases i5 n hn with h1 | ⟨r, hr, hp⟩
+      · rcases (hnodes n).mp h1 with rfl | h1
+        · exact .inr ⟨n, by simp, .refl⟩
+        · exact .inl h1
+      · rcases List.mem_append.mp hr with hr | hr
+        · have := (hpush r).mp (List.mem_reverse.mp hr)
+          exact .inr ⟨eid, by simp, Path.trans (.step .refl this.1) hp⟩
+        · exact .inr ⟨r, by simp [hr], hp⟩
+
+/-- A closed graph contains everything reachable from its nodes. -/
+theorem closed_path {fetch : Id → Option Event} {allConf : List Id} {g : Graph}
+    (cl : Closed fetch allConf g []) {r n : Id} (hr : r ∈ g.nodes) (hp : Path fetch allConf r n) :
+    n ∈ g.nodes := by
+  induction hp with
+  | refl => exact hr
+  | step _ hc ih =>
+    rcases cl _ ih _ hc with h | h
+    · exact h
+    · cases h
+
+/-- The graph built by `reverse_topological_power_sort` (when no run exhausts its fuel): its nodes
+are the events reachable from the control events inside the full conflicted set, and the edges of
+a node are its auth events inside that set. -/
+theorem buildGraph_ok {fetch : Id → Option Event} {allConf : List Id} : ∀ (cs : List Id) (g g' : Graph),
+    buildGraph fetch allConf cs g = .ok g' → GInv fetch allConf g → Closed fetch allConf g [] →
+    GInv fetch allConf g' ∧ Closed fetch allConf g' [] ∧
+    ∀ n, n ∈ g'.nodes ↔ n ∈ g.nodes ∨ ∃ r ∈ cs, Path fetch allConf r n
+  | [], g, g', h, inv, cl => by
+    simp only [buildGraph] at h; cases h
+    exact ⟨inv, cl, fun n => by simp⟩
+  | c :: cs, g, g', h, inv, cl => by
+    simp only [buildGraph] at h
+    cases hd : dfs fetch allConf (dfsFuel fetch allConf) [c] g with
+    | error e => rw [hd] at h; cases h
+    | ok g1 =>
+      rw [hd] at h
+      have cl0 : Closed fetch allConf g [c] := fun n hn x hx => (cl n hn x hx).imp id (fun h => by cases h)
+      obtain ⟨i1, i2, i3, i4, i5⟩ := dfs_ok _ _ g g1 hd inv cl0
+      obtain ⟨j1, j2, j3⟩ := buildGraph_ok cs g1 g' h i1 i2
+      refine ⟨j1, j2, ?_⟩
+      intro n
+      rw [j3]
+      constructor
+      · rintro (h1 | ⟨r, hr, hp⟩)
+        · rcases i5 n h1 with h2 | ⟨r, hr, hp⟩
+          · exact .inl h2
+          · simp only [List.mem_singleton] at hr; subst hr
+            exact .inr ⟨r, by simp, hp⟩
+        · exact .inr ⟨r, by simp [hr], hp⟩
+      · rintro (h1 | ⟨r, hr, hp⟩)
+        · exact .inl (i3 n h1)
+        · rcases List.mem_cons.mp hr with rfl | hr
+          · exact .inl (closed_path i2 (i4 r (by simp)) hp)
+          · exact .inr ⟨r, hr, hp⟩
+
+/-- Stack discipline: an unvisited child of a visited node lies on the stack above every copy of
+that node (so re-visiting a node pushes nothing). -/
+def Lifo (fetch : Id → Option Event) (allConf : List Id) (g : Graph) (st : List Id) : Prop :=
+  ∀ n ∈ g.nodes, ∀ c ∈ children fetch allConf n,
+    c ∈ g.nodes ∨ ∃ pre post, st = pre ++ c :: post ∧ n ∉ pre
+
+/-- Number of events of the full conflicted set that are not graph keys yet. -/
+def unvisited (allConf : List Id) (g : Graph) : Nat :=
+  (allConf.filter (fun x => decide (x ∉ g.nodes))).length
+
+def authTotal (fetch : Id → Option Event) (allConf : List Id) : Nat :=
+  (allConf.map (fun id => (authEventsOf fetch id).length)).sum
+
+theorem le_sum_map {f : α → Nat} : ∀ {l : List α} {a : α}, a ∈ l → f a ≤ (l.map f).sum
+  | x :: xs, a, h => by
+    rcases List.mem_cons.mp h with rfl | h
+    · simp
+    · have := le_sum_map (f := f) h; simp; omega
+
+theorem filter_length_remove [DecidableEq α] {p q : α → Bool} {a : α} : ∀ {l : List α}, l.Nodup → a ∈ l →
+    p a = true → q a = false → (∀ x, x ≠ a → q x = p x) →
+    (l.filter q).length + 1 = (l.filter p).length
+  | x :: xs, hn, hm, hp, hq, hpq => by
+    rw [List.nodup_cons] at hn
+    by_cases hx : x = a
+    · subst hx
+      have : xs.filter q = xs.filter p := by
+        apply List.filter_congr
+        intro y hy; apply hpq; intro e; subst e; exact hn.1 hy
+      simp [List.filter_cons, hp, hq, this]
+    · have hm' : a ∈ xs := by
+        rcases List.mem_cons.mp hm with h | h
+        · exact absurd h.symm hx
+        · exact h
+      have ih := filter_length_remove hn.2 hm' hp hq hpq
+      rw [List.filter_cons, List.filter_cons, hpq x hx]
+      by_cases hpx : p x = true <;> simp [hpx] <;> omega
+
+theorem dfs_fuel_ok {fetch : Id → Option Event} {allConf : List Id} (hac : allConf.Nodup) :
+    ∀ (fuel : Nat) (st : List Id) (g : Graph), GInv fetch allConf g → Lifo fetch allConf g st →
+      (∀ x ∈ st, x ∈ allConf) →
+      unvisited allConf g * (authTotal fetch allConf + 1) + st.length ≤ fuel →
+      ∃ g', dfs fetch allConf fuel st g = .ok g'
+  | fuel, [], g, _, _, _, _ => by cases fuel <;> exact ⟨g, rfl⟩
+  | 0, _ :: _, _, _, _, _, h => by simp at h
+  | fuel + 1, eid :: st, g, inv, lifo, hst, hfuel => by
+    obtain ⟨g1, pushes, hstep, inv1, hnodes, hpush, hlen⟩ := dfs_step inv eid st
+    simp only [dfs, hstep]
+    have heid : eid ∈ allConf := hst eid (by simp)
+    have hsub : ∀ x ∈ pushes.reverse ++ st, x ∈ allConf := by
+      intro x hx
+      rcases List.mem_append.mp hx with h | h
+      · have := ((hpush x).mp (List.mem_reverse.mp h)).1
+        simp only [children, List.mem_filter, decide_eq_true_eq] at this
+        exact this.2
+      · exact hst x (by simp [h])
+    have hnotpush : ∀ n ∈ g.nodes, n ∉ pushes := fun n hn hp => ((hpush n).mp hp).2.2 hn
+    by_cases hv : eid ∈ g.nodes
+    · -- re-visit: nothing is pushed
+      have hp : pushes = [] := by
+        cases hpe : pushes with
+        | nil => rfl
+        | cons c t =>
+          exfalso
+          have hc := (hpush c).mp (by rw [hpe]; simp)
+          rcases lifo eid hv c hc.1 with h | ⟨pre, post, he, hpre⟩
+          · exact hc.2.2 h
+          · cases pre with
+            | nil => simp at he; exact hc.2.1 he.1.symm
+            | cons a pre' => simp at he; apply hpre; rw [← he.1]; simp
+      subst hp
+      have hu : unvisited allConf g1 = unvisited allConf g := by
+        unfold unvisited
+        congr 1
+        apply List.filter_congr
+        intro x _
+        have : x ∈ g1.nodes ↔ x ∈ g.nodes := by
+          rw [hnodes]
+          constructor
+          · rintro (rfl | h); exact hv; exact h
+          · exact .inr
+        simp [this]
+      apply dfs_fuel_ok hac fuel _ g1 inv1 ?_ hsub ?_
+      · intro n hn c hc
+        have hn' : n ∈ g.nodes := by
+          rcases (hnodes n).mp hn with rfl | h
+          · exact hv
+          · exact h
+        rcases lifo n hn' c hc with h | ⟨pre, post, he, hpre⟩
+        · exact .inl ((hnodes c).mpr (.inr h))
+        · cases pre with
+          | nil => simp at he; left; rw [hnodes]; exact .inl he.1.symm
+          | cons a pre' =>
+            simp at he
+            exact .inr ⟨pre', post, by simpa using he.2, fun h => hpre (by simp [h])⟩
+      · simp only [List.reverse_nil, List.nil_append, List.length_cons] at hfuel ⊢
+        rw [hu]; omega
+    · -- first visit
+      have hu : unvisited allConf g1 + 1 = unvisited allConf g := by
+        unfold unvisited
+        apply filter_length_remove hac heid
+        · simp [hv]
+        · simp [(hnodes eid).mpr (.inl rfl)]
+        · intro x hx
+          have : x ∈ g1.nodes ↔ x ∈ g.nodes := by
+            rw [hnodes]
+            constructor
+            · rintro (h | h); exact absurd h hx; exact h
+            · exact .inr
+          simp [this]
+      have hS : pushes.length ≤ authTotal fetch allConf :=
+        Nat.le_trans hlen (le_sum_map (f := fun id => (authEventsOf fetch id).length) heid)
+      apply dfs_fuel_ok hac fuel _ g1 inv1 ?_ hsub ?_
+      · intro n hn c hc
+        by_cases hcg : c ∈ g1.nodes
+        · exact .inl hcg
+        right
+        have hc1 : c ≠ eid := fun e => hcg ((hnodes c).mpr (.inl e))
+        have hc2 : c ∉ g.nodes := fun e => hcg ((hnodes c).mpr (.inr e))
+        rcases (hnodes n).mp hn with rfl | hn'
+        · have hcp : c ∈ pushes.reverse := List.mem_reverse.mpr ((hpush c).mpr ⟨hc, hc1, hc2⟩)
+          obtain ⟨pre, post, he⟩ := List.append_of_mem hcp
+          refine ⟨pre, post ++ st, by rw [he]; simp, ?_⟩
+          intro hpre
+          have : n ∈ pushes := List.mem_reverse.mp (by rw [he]; simp [hpre])
+          exact ((hpush n).mp this).2.1 rfl
+        · rcases lifo n hn' c hc with h | ⟨pre, post, he, hpre⟩
+          · exact absurd h hc2
+          · cases pre with
+            | nil => simp at he; exact absurd he.1.symm hc1
+            | cons a pre' =>
+              simp at he
+              refine ⟨pushes.reverse ++ pre', post, by rw [he.2]; simp, ?_⟩
+              intro h
+              rcases List.mem_append.mp h with h | h
+              · exact hnotpush n hn' (List.mem_reverse.mp h)
+              · exact hpre (by simp [h])
+      · simp only [List.length_append, List.length_reverse, List.length_cons] at hfuel ⊢
+        have : unvisited allConf g * (authTotal fetch allConf + 1) =
+            unvisited allConf g1 * (authTotal fetch allConf + 1) + (authTotal fetch allConf + 1) := by
+          rw [← hu, Nat.add_mul, Nat.one_mul]
+        omega
+
+theorem unvisited_le (allConf : List Id) (g : Graph) : unvisited allConf g ≤ allConf.length :=
+  List.length_filter_le _ _
+
+/-- `reverse_topological_power_sort`'s graph construction never fails in the model: neither the
+`unwrap` nor the loop bound is reached. -/
+theorem buildGraph_total {fetch : Id → Option Event} {allConf : List Id} (hac : allConf.Nodup) :
+    ∀ (cs : List Id) (g : Graph), (∀ c ∈ cs, c ∈ allConf) → GInv fetch allConf g →
+      Closed fetch allConf g [] → ∃ g', buildGraph fetch allConf cs g = .ok g'
+  | [], g, _, _, _ => ⟨g, rfl⟩
+  | c :: cs, g, hcs, inv, cl => by
+    have lifo : Lifo fetch allConf g [c] := by
+      intro n hn x hx
+      rcases cl n hn x hx with h | h
+      · exact .inl h
+      · cases h
+    have hfuel : unvisited allConf g * (authTotal fetch allConf + 1) + [c].length ≤
+        dfsFuel fetch allConf := by
+      have := unvisited_le allConf g
+      have h2 := Nat.mul_le_mul_right (authTotal fetch allConf + 1) this
+      simp only [dfsFuel, authTotal, List.length_singleton] at h2 ⊢
+      rw [Nat.add_mul (allConf.length) 1]
+      omega
+    obtain ⟨g1, hd⟩ := dfs_fuel_ok hac _ [c] g inv lifo
+      (by intro x hx; simp at hx; subst hx; exact hcs x (by simp)) hfuel
+    have cl0 : Closed fetch allConf g [c] := fun n hn x hx => (cl n hn x hx).imp id (fun h => by cases h)
+    obtain ⟨i1, i2, _⟩ := dfs_ok _ _ g g1 hd inv cl0
+    obtain ⟨g', hb⟩ := buildGraph_total hac cs g1 (fun c hc => hcs c (by simp [hc])) i1 i2
+    exact ⟨g', by simp only [buildGraph, hd]; exact hb⟩
+/-! ### `get_power_level_for_sender` and the creator cache -/
+
+def isPL (e : Event) : Bool := isTypeAndKey e tPowerLevels []
+def isCreate (e : Event) : Bool := isTypeAndKey e tCreate []
+
+theorem not_isPL_and_isCreate (e : Event) : ¬ (isPL e = true ∧ isCreate e = true) := by
+  simp only [isPL, isCreate, isTypeAndKey, Bool.and_eq_true, decide_eq_true_eq]
+  rintro ⟨⟨h1, _⟩, ⟨h2, _⟩⟩
+  rw [h1] at h2
+  revert h2; decide
+
+/-- The loop of `get_power_level_for_sender` over the fetched auth events. -/
+def scanE (lockSet : Bool) : List Event → Option Event → Option Event → Option Event × Option Event
+  | [], pl, cr => (pl, cr)
+  | aev :: rest, pl, cr =>
+    let pc : Option Event × Option Event :=
+      if isTypeAndKey aev tPowerLevels [] then (some aev, cr)
+      else if !lockSet && isTypeAndKey aev tCreate [] then (pl, some aev)
+      else (pl, cr)
+    if pc.1.isSome && (lockSet || pc.2.isSome) then pc
+    else scanE lockSet rest pc.1 pc.2
+
+theorem scanAuth_eq_scanE (fetch : Id → Option Event) (lockSet : Bool) : ∀ (auths : List Id) pl cr,
+    scanAuth fetch lockSet auths pl cr = scanE lockSet (auths.filterMap fetch) pl cr
+  | [], pl, cr => rfl
+  | a :: rest, pl, cr => by
+    cases h : fetch a with
+    | none => simp only [scanAuth, h, List.filterMap_cons]; exact scanAuth_eq_scanE fetch lockSet rest pl cr
+    | some aev =>
+      simp only [scanAuth, h, List.filterMap_cons, scanE]
+      rw [scanAuth_eq_scanE fetch lockSet rest]
+
+/-- At most one power-levels event and at most one create event. -/
+def UniquePlCreate (L : List Event) : Prop :=
+  (L.filter isPL).length ≤ 1 ∧ (L.filter isCreate).length ≤ 1
+
+def scanStep (lockSet : Bool) (a : Event) (pl cr : Option Event) : Option Event × Option Event :=
+  if isPL a then (some a, cr) else if !lockSet && isCreate a then (pl, some a) else (pl, cr)
+
+theorem scanE_cons (lockSet : Bool) (a : Event) (L : List Event) (pl cr : Option Event) :
+    scanE lockSet (a :: L) pl cr =
+      if (scanStep lockSet a pl cr).1.isSome && (lockSet || (scanStep lockSet a pl cr).2.isSome)
+      then scanStep lockSet a pl cr
+      else scanE lockSet L (scanStep lockSet a pl cr).1 (scanStep lockSet a pl cr).2 := rfl
+
+theorem find?_none_of_filter_nil {p : α → Bool} {L : List α} (h : L.filter p = []) :
+    L.find? p = none := by
+  rw [List.find?_eq_none]
+  intro x hx hpx
+  have : x ∈ L.filter p := List.mem_filter.mpr ⟨hx, by simpa using hpx⟩
+  rw [h] at this; cases this
+
+theorem scanE_spec (lockSet : Bool) : ∀ (L : List Event) (pl cr : Option Event),
+    (pl.isSome → L.filter isPL = []) → (cr.isSome → L.filter isCreate = []) → UniquePlCreate L →
+    (scanE lockSet L pl cr).1 = (L.find? isPL).or pl ∧
+    (lockSet = false → (scanE lockSet L pl cr).2 = (L.find? isCreate).or cr)
+  | [], pl, cr, _, _, _ => by simp [scanE]
+  | a :: L, pl, cr, hpl, hcr, hu => by
+    have hnot := not_isPL_and_isCreate a
+    rw [scanE_cons]
+    by_cases hp : isPL a = true
+    · have hc : isCreate a = false := by
+        cases h : isCreate a with
+        | false => rfl
+        | true => exact absurd ⟨hp, h⟩ hnot
+      have hL : L.filter isPL = [] := by
+        have := hu.1; simp only [List.filter_cons, hp, if_true, List.length_cons] at this
+        exact List.eq_nil_of_length_eq_zero (by omega)
+      have hu' : UniquePlCreate L := by
+        refine ⟨by rw [hL]; simp, ?_⟩
+        have := hu.2; simp only [List.filter_cons, hc] at this; exact this
+      have hcr' : cr.isSome → L.filter isCreate = [] := by
+        intro h; have := hcr h; simp only [List.filter_cons, hc] at this; exact this
+      have hs : scanStep lockSet a pl cr = (some a, cr) := by simp [scanStep, hp]
+      rw [hs]
+      simp only [List.find?_cons, hp, hc]
+      by_cases hb : ((some a).isSome && (lockSet || cr.isSome)) = true
+      · rw [if_pos hb]
+        refine ⟨by simp, fun hl => ?_⟩
+        subst hl
+        simp only [Option.isSome_some, Bool.false_or, Bool.true_and] at hb
+        rw [find?_none_of_filter_nil (hcr' hb)]; simp
+      · rw [if_neg hb]
+        obtain ⟨i1, i2⟩ := scanE_spec lockSet L (some a) cr (fun _ => hL) hcr' hu'
+        refine ⟨?_, i2⟩
+        rw [i1, find?_none_of_filter_nil hL]; simp
+    · have hpf : isPL a = false := by simpa using hp
+      have hpl' : pl.isSome → L.filter isPL = [] := by
+        intro h; have := hpl h; simp only [List.filter_cons, hpf] at this; exact this
+      by_cases hc : isCreate a = true
+      · have hLc : L.filter isCreate = [] := by
+          have := hu.2; simp only [List.filter_cons, hc, if_true, List.length_cons] at this
+          exact List.eq_nil_of_length_eq_zero (by omega)
+        have hu' : UniquePlCreate L := by
+          refine ⟨?_, by rw [hLc]; simp⟩
+          have := hu.1; simp only [List.filter_cons, hpf] at this; exact this
+        have hcrn : cr = none := by
+          cases cr with
+          | none => rfl
+          | some c => have := hcr rfl; simp [List.filter_cons, hc] at this
+        subst hcrn
+        simp only [List.find?_cons, hpf, hc]
+        cases lockSet with
+        | true =>
+          have hs : scanStep true a pl none = (pl, none) := by simp [scanStep, hpf]
+          rw [hs]
+          by_cases hb : (pl.isSome && (true || (none : Option Event).isSome)) = true
+          · rw [if_pos hb]
+            simp only [Bool.true_or, Bool.and_true] at hb
+            refine ⟨?_, fun hl => by cases hl⟩
+            rw [find?_none_of_filter_nil (hpl' hb)]; simp
+          · rw [if_neg hb]
+            obtain ⟨i1, _⟩ := scanE_spec true L pl none hpl' (by simp) hu'
+            exact ⟨i1, fun hl => by cases hl⟩
+        | false =>
+          have hs : scanStep false a pl none = (pl, some a) := by simp [scanStep, hpf, hc]
+          rw [hs]
+          by_cases hb : (pl.isSome && (false || (some a).isSome)) = true
+          · rw [if_pos hb]
+            simp only [Option.isSome_some, Bool.or_true, Bool.and_true] at hb
+            refine ⟨?_, fun _ => by simp⟩
+            rw [find?_none_of_filter_nil (hpl' hb)]; simp
+          · rw [if_neg hb]
+            obtain ⟨i1, i2⟩ := scanE_spec false L pl (some a) hpl' (fun _ => hLc) hu'
+            refine ⟨i1, fun _ => ?_⟩
+            rw [i2 rfl, find?_none_of_filter_nil hLc]; simp
+      · have hcf : isCreate a = false := by simpa using hc
+        have hcr' : cr.isSome → L.filter isCreate = [] := by
+          intro h; have := hcr h; simp only [List.filter_cons, hcf] at this; exact this
+        have hu' : UniquePlCreate L := by
+          have h1 := hu.1; have h2 := hu.2
+          simp only [List.filter_cons, hpf, hcf] at h1 h2
+          exact ⟨h1, h2⟩
+        have hs : scanStep lockSet a pl cr = (pl, cr) := by simp [scanStep, hpf, hcf]
+        rw [hs]
+        simp only [List.find?_cons, hpf, hcf]
+        by_cases hb : (pl.isSome && (lockSet || cr.isSome)) = true
+        · rw [if_pos hb]
+          simp only [Bool.and_eq_true, Bool.or_eq_true] at hb
+          refine ⟨?_, fun hl => ?_⟩
+          · rw [find?_none_of_filter_nil (hpl' hb.1)]; simp
+          · subst hl
+            simp only [Bool.false_eq_true, false_or] at hb
+            rw [find?_none_of_filter_nil (hcr' hb.2)]; simp
+        · rw [if_neg hb]
+          exact scanE_spec lockSet L pl cr hpl' hcr' hu'
+
+/-- What the power sort needs of an event `e` of the graph (§ DESIGN C06 `WF`): among its auth
+events there is at most one power-levels event, and exactly the room's create event `c0`. -/
+structure EventWF (fetch : Id → Option Event) (c0 : Event) (e : Event) : Prop where
+  unique : UniquePlCreate (e.authEvents.filterMap fetch)
+  create : createAmong fetch e = some c0
+
+theorem plAmong_eq (fetch : Id → Option Event) (e : Event) :
+    plAmong fetch e = (e.authEvents.filterMap fetch).find? isPL := rfl
+
+theorem createAmong_eq (fetch : Id → Option Event) (e : Event) :
+    createAmong fetch e = (e.authEvents.filterMap fetch).find? isCreate := rfl
+
+theorem powerLevelForSender_eq {p : Params} {fetch : Id → Option Event} {c0 e : Event} {eid : Id}
+    (he : fetch eid = some e) (wf : EventWF fetch c0 e) (lock : Option Str)
+    (hlock : ∀ c, lock = some c → p.creatorOf c0 = some c) :
+    powerLevelForSender p fetch lock eid =
+      match senderPower p fetch e with
+      | some v => .ok (v, p.creatorOf c0)
+      | none => .error .err := by
+  unfold powerLevelForSender senderPower
+  simp only [he, wf.create]
+  rw [scanAuth_eq_scanE]
+  cases lock with
+  | some c =>
+    obtain ⟨s1, _⟩ := scanE_spec true (e.authEvents.filterMap fetch) none none (by simp) (by simp) wf.unique
+    simp only [Option.or_none] at s1
+    rw [← plAmong_eq] at s1
+    have hc := hlock c rfl
+    simp only [Option.isSome_some, s1, hc, Option.bind_some]
+    cases p.userLevel (plAmong fetch e) e.sender c <;> rfl
+  | none =>
+    obtain ⟨s1, s2⟩ := scanE_spec false (e.authEvents.filterMap fetch) none none (by simp) (by simp) wf.unique
+    have s2' := s2 rfl
+    simp only [Option.or_none] at s1 s2'
+    rw [← plAmong_eq] at s1
+    rw [← createAmong_eq, wf.create] at s2'
+    simp only [Option.isSome_none, s1, s2']
+    cases hcr : p.creatorOf c0 with
+    | none => simp
+    | some c =>
+      simp only [Option.bind_some]
+      cases p.userLevel (plAmong fetch e) e.sender c <;> rfl
+
+/-- The spec's power level of the sender of graph node `n`. -/
+def specPL (p : Params) (fetch : Id → Option Event) (n : Id) : Option Int :=
+  (fetch n).bind (senderPower p fetch)
+
+theorem powerLevels_ok {p : Params} {fetch : Id → Option Event} {c0 : Event} :
+    ∀ (nodes : List Id) (lock : Option Str) (m : List (Id × Int)),
+    (∀ n ∈ nodes, ∃ e, fetch n = some e ∧ EventWF fetch c0 e) →
+    (∀ c, lock = some c → p.creatorOf c0 = some c) →
+    (∀ n ∈ nodes, (specPL p fetch n).isSome) →
+    ∃ m', powerLevels p fetch nodes lock m = .ok m' ∧
+      ∀ k, AL.get m' k = if k ∈ nodes then specPL p fetch k else AL.get m k
+  | [], lock, m, _, _, _ => ⟨m, rfl, by simp⟩
+  | n :: ns, lock, m, hwf, hlock, hsome => by
+    obtain ⟨e, he, wfe⟩ := hwf n (by simp)
+    have hs := hsome n (by simp)
+    simp only [specPL, he, Option.bind_some] at hs
+    obtain ⟨v, hv⟩ := Option.isSome_iff_exists.mp hs
+    simp only [powerLevels, powerLevelForSender_eq he wfe lock hlock, hv]
+    obtain ⟨m', h1, h2⟩ := powerLevels_ok ns (p.creatorOf c0) (AL.insert m n v)
+      (fun x hx => hwf x (by simp [hx])) (fun c hc => hc) (fun x hx => hsome x (by simp [hx]))
+    refine ⟨m', h1, ?_⟩
+    intro k
+    rw [h2, AL.get_insert]
+    by_cases hk : k ∈ ns
+    · simp [hk]
+    · by_cases hkn : n = k
+      · subst hkn; simp [hk, specPL, he, hv]
+      · simp [hk, hkn, Ne.symm hkn]
+
+theorem powerLevels_err {p : Params} {fetch : Id → Option Event} {c0 : Event} :
+    ∀ (nodes : List Id) (lock : Option Str) (m : List (Id × Int)),
+    (∀ n ∈ nodes, ∃ e, fetch n = some e ∧ EventWF fetch c0 e) →
+    (∀ c, lock = some c → p.creatorOf c0 = some c) →
+    (∃ n ∈ nodes, specPL p fetch n = none) →
+    powerLevels p fetch nodes lock m = .error .err
+  | [], _, _, _, _, h => by obtain ⟨n, hn, _⟩ := h; cases hn
+  | n :: ns, lock, m, hwf, hlock, hnone => by
+    obtain ⟨e, he, wfe⟩ := hwf n (by simp)
+    simp only [powerLevels, powerLevelForSender_eq he wfe lock hlock]
+    cases hv : senderPower p fetch e with
+    | none => rfl
+    | some v =>
+      simp only []
+      apply powerLevels_err ns _ _ (fun x hx => hwf x (by simp [hx])) (fun c hc => hc)
+      obtain ⟨x, hx, hxn⟩ := hnone
+      rcases List.mem_cons.mp hx with rfl | hx
+      · simp [specPL, he, hv] at hxn
+      · exact ⟨x, hx, hxn⟩
+/-! ### `reverse_topological_power_sort` -/
+
+/-- Same node set and, node by node, the same edge set (any representation of one graph). -/
+def GraphSim (g g' : Graph) : Prop :=
+  g'.nodes.Perm g.nodes ∧
+  ∀ n es es', (n, es) ∈ g → (n, es') ∈ g' → ∀ x, x ∈ es ↔ x ∈ es'
+
+theorem GraphPerm.sim {g g' : Graph} (hg : g.nodes.Nodup) (h : GraphPerm g g') : GraphSim g g' := by
+  refine ⟨h.nodes, ?_⟩
+  intro n es es' h1 h2 x
+  obtain ⟨es0, h3, h4⟩ := h.mem h2
+  have := edges_unique hg h1 h3
+  subst this
+  exact (h4.mem_iff).symm
+
+theorem candidates_sim {g g' : Graph} (hg : g.nodes.Nodup) (h : GraphSim g g') (done : List Id) :
+    (candidates g' done).Perm (candidates g done) := by
+  have hg' : g'.nodes.Nodup := h.1.symm.nodup hg
+  rw [List.perm_ext_iff_of_nodup (candidates_nodup hg' _) (candidates_nodup hg _)]
+  intro n
+  rw [mem_candidates, mem_candidates]
+  constructor
+  · rintro ⟨es', h1, h2, h3⟩
+    obtain ⟨es, h4⟩ := mem_nodes_iff.mp (h.1.mem_iff.mp (mem_nodes_iff.mpr ⟨es', h1⟩))
+    exact ⟨es, h4, h2, fun e he => h3 e ((h.2 n es es' h4 h1 e).mp he)⟩
+  · rintro ⟨es, h1, h2, h3⟩
+    obtain ⟨es', h4⟩ := mem_nodes_iff.mp (h.1.mem_iff.mpr (mem_nodes_iff.mpr ⟨es, h1⟩))
+    exact ⟨es', h4, h2, fun e he => h3 e ((h.2 n es es' h1 h4 e).mpr he)⟩
+
+theorem kahn_sim {g g' : Graph} (hg : g.nodes.Nodup) (h : GraphSim g g') (K : Id → TB) :
+    ∀ (fuel : Nat) (done : List Id), kahn g' K fuel done = kahn g K fuel done
+  | 0, _ => rfl
+  | fuel + 1, done => by
+    unfold kahn
+    rw [least_perm powerLt_strictTotal ((candidates_sim hg h done).map K)]
+    cases least powerLt ((candidates g done).map K) with
+    | none => rfl
+    | some m => exact kahn_sim hg h K fuel _
+
+theorem lexTopo_sim {g g' : Graph} (hg : g.nodes.Nodup) (h : GraphSim g g') (K : Id → TB) :
+    lexTopo g' K = lexTopo g K := by
+  unfold lexTopo
+  have : g'.length = g.length := by
+    rw [← length_nodes, ← length_nodes]; exact h.1.length_eq
+  rw [this]
+  exact kahn_sim hg h K _ _
+
+/-- Agreement of two key functions on the nodes suffices. -/
+theorem kahn_key_congr (g : Graph) {K K' : Id → TB} (hK : ∀ n ∈ g.nodes, K n = K' n) :
+    ∀ (fuel : Nat) (done : List Id), kahn g K fuel done = kahn g K' fuel done
+  | 0, _ => rfl
+  | fuel + 1, done => by
+    unfold kahn
+    have : (candidates g done).map K = (candidates g done).map K' := by
+      apply List.map_congr_left
+      intro n hn
+      obtain ⟨es, h1, _, _⟩ := mem_candidates.mp hn
+      exact hK n (mem_nodes_iff.mpr ⟨es, h1⟩)
+    rw [this]
+    cases least powerLt ((candidates g done).map K') with
+    | none => rfl
+    | some m => exact kahn_key_congr g hK fuel _
+
+/-- The comparison keys of the power sort, from the spec's sender power levels. -/
+def powerKey (p : Params) (fetch : Id → Option Event) (n : Id) : Int × Int :=
+  ((specPL p fetch n).getD 0, tsOf fetch n)
+
+/-- **powerSort, in order-free terms.** `G` is any representation of the graph of events reachable
+from the control events inside the full conflicted set. -/
+theorem powerSort_eq {p : Params} {o : Orders} (ho : o.Valid) {fetch : Id → Option Event}
+    {allConf control : List Id} {c0 : Event} (hac : allConf.Nodup)
+    (hctl : ∀ c ∈ control, c ∈ allConf)
+    (hwf : ∀ n ∈ allConf, ∃ e, fetch n = some e ∧ EventWF fetch c0 e)
+    (G : Graph) (hG : G.nodes.Nodup)
+    (hGn : ∀ n, n ∈ G.nodes ↔ ∃ r ∈ control, Path fetch allConf r n)
+    (hGe : ∀ n es, (n, es) ∈ G → ∀ x, x ∈ es ↔ x ∈ children fetch allConf n) :
+    powerSort p o fetch allConf control =
+      if ∀ n ∈ G.nodes, (specPL p fetch n).isSome = true
+      then .ok (lexTopo G (Kf (powerKey p fetch))) else .error .err := by
+  have inv0 : GInv fetch allConf [] := ⟨by simp [Graph.nodes], by intro n es h; cases h⟩
+  have cl0 : Closed fetch allConf [] [] := by intro n hn; simp [Graph.nodes] at hn
+  obtain ⟨g0, hb⟩ := buildGraph_total hac control [] hctl inv0 cl0
+  obtain ⟨inv, cl, hnodes⟩ := buildGraph_ok control [] g0 hb inv0 cl0
+  unfold powerSort
+  simp only [hb]
+  -- the shuffled graph
+  have hsim : GraphSim G (o.graph.sh (g0.map (fun ne => (ne.1, (o.edges ne.1).sh ne.2)))) := by
+    have hperm : GraphPerm g0 (o.graph.sh (g0.map (fun ne => (ne.1, (o.edges ne.1).sh ne.2)))) :=
+      ⟨fun n l => (o.edges n).sh l, fun n l => (ho.edges n) l, ho.graph _⟩
+    have hs0 := hperm.sim inv.nodup
+    refine ⟨hs0.1.trans ?_, ?_⟩
+    · rw [List.perm_ext_iff_of_nodup inv.nodup hG]
+      intro n; rw [hnodes, hGn]; simp [Graph.nodes]
+    · intro n es es' h1 h2 x
+      obtain ⟨es0, h3⟩ := mem_nodes_iff.mp (hs0.1.mem_iff.mp (mem_nodes_iff.mpr ⟨es', h2⟩))
+      rw [hGe n es h1, ← (inv.edges n es0 h3).2 x]
+      exact hs0.2 n es0 es' h3 h2 x
+  obtain ⟨g, hg⟩ : ∃ g : Graph, g = o.graph.sh (g0.map (fun ne => (ne.1, (o.edges ne.1).sh ne.2))) := ⟨_, rfl⟩
+  rw [← hg] at hsim ⊢
+  have hgn : g.nodes.Nodup := hsim.1.symm.nodup hG
+  have hnodes_wf : ∀ n ∈ g.nodes, ∃ e, fetch n = some e ∧ EventWF fetch c0 e := by
+    intro n hn
+    have : n ∈ G.nodes := hsim.1.mem_iff.mp hn
+    obtain ⟨r, hr, hp⟩ := (hGn n).mp this
+    apply hwf
+    cases hp with
+    | refl => exact hctl n hr
+    | step _ hc =>
+      simp only [children, List.mem_filter, decide_eq_true_eq] at hc
+      exact hc.2
+  by_cases hall : ∀ n ∈ G.nodes, (specPL p fetch n).isSome = true
+  · rw [if_pos hall]
+    obtain ⟨pls, hpls, hget⟩ := powerLevels_ok (p := p) g.nodes none [] hnodes_wf (by intro c h; cases h)
+      (fun n hn => hall n (hsim.1.mem_iff.mp hn))
+    simp only [hpls]
+    rw [lexTopoSort_eq_lexTopo hgn (fun n l => (ho.parents n) l) (kf := powerKey p fetch)]
+    · rw [lexTopo_sim hG hsim]
+    · intro n hn
+      obtain ⟨e, he, _⟩ := hnodes_wf n hn
+      have hs := hall n (hsim.1.mem_iff.mp hn)
+      obtain ⟨v, hv⟩ := Option.isSome_iff_exists.mp hs
+      simp [he, hget n, hn, hv, powerKey, tsOf]
+  · rw [if_neg hall]
+    have : ∃ n ∈ g.nodes, specPL p fetch n = none := by
+      apply Classical.byContradiction
+      intro hne
+      apply hall
+      intro n hn
+      cases hs : specPL p fetch n with
+      | some v => rfl
+      | none => exact absurd ⟨n, hsim.1.mem_iff.mpr hn, hs⟩ hne
+    rw [powerLevels_err g.nodes none [] hnodes_wf (by intro c h; cases h) this]
+/-! ### full conflicted set, iterative auth check, final overlay -/
+
+theorem mem_fullConflicted {o : Orders} (ho : o.Valid) {fetch : Id → Option Event} {diff : List Id}
+    {conf : List (SKey × List Id)} (id : Id) :
+    id ∈ fullConflicted o fetch diff conf ↔
+      (id ∈ diff ∨ id ∈ confIds conf) ∧ (fetch id).isSome = true := by
+  unfold fullConflicted
+  rw [(ho.allConf _).mem_iff, mem_dedup, List.mem_filter, List.mem_append]
+  have : id ∈ ((o.confVals.sh conf).map (·.2)).flatten ↔ id ∈ confIds conf := by
+    unfold confIds
+    simp only [List.mem_flatten, List.mem_map]
+    constructor
+    · rintro ⟨l, ⟨a, ha, rfl⟩, hid⟩; exact ⟨_, ⟨a, (ho.confVals _).mem_iff.mp ha, rfl⟩, hid⟩
+    · rintro ⟨l, ⟨a, ha, rfl⟩, hid⟩; exact ⟨_, ⟨a, (ho.confVals _).mem_iff.mpr ha, rfl⟩, hid⟩
+  rw [this]
+
+theorem nodup_fullConflicted {o : Orders} (ho : o.Valid) (fetch : Id → Option Event) (diff : List Id)
+    (conf : List (SKey × List Id)) : (fullConflicted o fetch diff conf).Nodup :=
+  (ho.allConf _).symm.nodup (nodup_dedup _)
+
+/-! ### state maps up to lookup -/
+
+/-- Two state maps with the same lookups. -/
+def StEq (a b : StateMap) : Prop := ∀ k, AL.get a k = AL.get b k
+
+theorem StEq.insert {a b : StateMap} (h : StEq a b) (k : SKey) (v : Id) :
+    StEq (AL.insert a k v) (AL.insert b k v) := by
+  intro k'; rw [AL.get_insert, AL.get_insert, h k']
+
+/-- Outcomes up to lookup. -/
+def ResEq : Except Fail StateMap → Except Fail StateMap → Prop
+  | .ok a, .ok b => StEq a b
+  | .error e, .error e' => e = e'
+  | _, _ => False
+
+theorem ResEq.rfl' {r : Except Fail StateMap} : ResEq r r := by
+  cases r with
+  | ok a => exact fun _ => rfl
+  | error e => exact rfl
+
+theorem overlayState_congr (fetch : Id → Option Event) {st st' : StateMap} (h : StEq st st') :
+    ∀ (ks : List SKey) (m : List (SKey × Event)), overlayState fetch st ks m = overlayState fetch st' ks m
+  | [], m => rfl
+  | k :: ks, m => by
+    simp only [overlayState, h k]
+    cases AL.get st' k with
+    | none => exact overlayState_congr fetch h ks m
+    | some id =>
+      simp only []
+      cases fetch id with
+      | none => exact overlayState_congr fetch h ks m
+      | some e => exact overlayState_congr fetch h ks _
+
+/-- `iterative_auth_check` depends on the starting state only through its lookups. -/
+theorem iterativeAuthCheck_congr (p : Params) (fetch : Id → Option Event) :
+    ∀ (ids : List Id) {st st' : StateMap}, StEq st st' →
+      ResEq (iterativeAuthCheck p fetch ids st) (iterativeAuthCheck p fetch ids st')
+  | [], st, st', h => h
+  | id :: rest, st, st', h => by
+    simp only [iterativeAuthCheck]
+    cases fetch id with
+    | none => exact rfl
+    | some ev =>
+      simp only []
+      cases ev.stateKey with
+      | none => exact rfl
+      | some sk =>
+        simp only []
+        cases authEventsMap fetch ev.authEvents [] with
+        | error e => exact rfl
+        | ok am =>
+          simp only []
+          cases p.authTypes ev with
+          | none => exact iterativeAuthCheck_congr p fetch rest h
+          | some tys =>
+            simp only [overlayState_congr fetch h]
+            split
+            · exact iterativeAuthCheck_congr p fetch rest (h.insert _ _)
+            · exact iterativeAuthCheck_congr p fetch rest h
+
+theorem extend_get : ∀ (clean st : StateMap) (k : SKey), (AL.keys clean).Nodup →
+    AL.get (extend st clean) k = (AL.get clean k).or (AL.get st k)
+  | [], st, k, _ => by simp [extend]
+  | (q, v) :: t, st, k, hn => by
+    simp only [AL.keys, List.map_cons, List.nodup_cons] at hn
+    have ih := extend_get t (AL.insert st q v) k hn.2
+    simp only [extend, List.foldl_cons] at ih ⊢
+    rw [ih, AL.get_insert, AL.get_cons]
+    by_cases hq : q = k
+    · subst hq
+      have : AL.get t q = none := (AL.get_eq_none_iff t q).mpr hn.1
+      simp [this]
+    · simp [hq]
+/-! ### `mainline_sort` -/
+
+/-- Two sorted permutations of each other are equal when the order is antisymmetric on them. -/
+theorem eq_of_perm_of_sorted {le : α → α → Bool} : ∀ {l₁ l₂ : List α},
+    (∀ a b, a ∈ l₁ → b ∈ l₁ → le a b = true → le b a = true → a = b) →
+    l₁.Pairwise (fun a b => le a b = true) → l₂.Pairwise (fun a b => le a b = true) →
+    l₁.Perm l₂ → l₁ = l₂
+  | [], l₂, _, _, _, hp => (List.Perm.eq_nil hp.symm).symm
+  | a :: t₁, [], _, _, _, hp => by have := hp.length_eq; simp at this
+  | a :: t₁, b :: t₂, hanti, h1, h2, hp => by
+    rw [List.pairwise_cons] at h1 h2
+    have hab : a = b := by
+      by_cases e : a = b
+      · exact e
+      · have ha : a ∈ t₂ := by
+          have := hp.mem_iff.mp (List.mem_cons_self (a := a) (l := t₁))
+          rcases List.mem_cons.mp this with h | h
+          · exact absurd h e
+          · exact h
+        have hb : b ∈ t₁ := by
+          have := hp.mem_iff.mpr (List.mem_cons_self (a := b) (l := t₂))
+          rcases List.mem_cons.mp this with h | h
+          · exact absurd h.symm e
+          · exact h
+        exact hanti a b (by simp) (by simp [hb]) (h1.1 b hb) (h2.1 a ha)
+    subst hab
+    congr 1
+    exact eq_of_perm_of_sorted (fun x y hx hy => hanti x y (by simp [hx]) (by simp [hy]))
+      h1.2 h2.2 (List.Perm.cons_inv hp)
+
+/-- Sorting with a total, transitive order that is antisymmetric on the elements does not depend
+on the order of the input. -/
+theorem mergeSort_perm_eq {le : α → α → Bool} (htrans : ∀ a b c, le a b = true → le b c = true → le a c = true)
+    (htotal : ∀ a b, le a b = true ∨ le b a = true) {l l' : List α}
+    (hanti : ∀ a b, a ∈ l → b ∈ l → le a b = true → le b a = true → a = b) (hp : l.Perm l') :
+    l.mergeSort le = l'.mergeSort le := by
+  apply eq_of_perm_of_sorted (le := le)
+  · intro a b ha hb
+    exact hanti a b ((List.mergeSort_perm l le).mem_iff.mp ha) ((List.mergeSort_perm l le).mem_iff.mp hb)
+  · exact List.pairwise_mergeSort (fun a b c => htrans a b c) (fun a b => by
+      rcases htotal a b with h | h <;> simp [h]) l
+  · exact List.pairwise_mergeSort (fun a b c => htrans a b c) (fun a b => by
+      rcases htotal a b with h | h <;> simp [h]) l'
+  · exact (List.mergeSort_perm l le).trans (hp.trans (List.mergeSort_perm l' le).symm)
+
+theorem str_le_iff (a b : Str) : a ≤ b ↔ ¬ b < a := List.not_lt.symm
+
+theorem mkey_le_iff (a b : MKey) : MKey.le a b = true ↔
+    a.depth < b.depth ∨ (a.depth = b.depth ∧ (a.ts < b.ts ∨ (a.ts = b.ts ∧ a.id ≤ b.id))) := by
+  unfold MKey.le
+  by_cases h1 : a.depth = b.depth <;> by_cases h2 : a.ts = b.ts <;> simp [h1, h2] <;> omega
+
+theorem mkey_le_total (a b : MKey) : MKey.le a b = true ∨ MKey.le b a = true := by
+  rw [mkey_le_iff, mkey_le_iff]
+  by_cases h1 : a.depth = b.depth
+  · by_cases h2 : a.ts = b.ts
+    · rcases List.le_total a.id b.id with h | h
+      · exact .inl (.inr ⟨h1, .inr ⟨h2, h⟩⟩)
+      · exact .inr (.inr ⟨h1.symm, .inr ⟨h2.symm, h⟩⟩)
+    · rcases Int.lt_or_gt_of_ne h2 with h | h
+      · exact .inl (.inr ⟨h1, .inl h⟩)
+      · exact .inr (.inr ⟨h1.symm, .inl h⟩)
+  · rcases Nat.lt_or_gt_of_ne h1 with h | h
+    · exact .inl (.inl h)
+    · exact .inr (.inl h)
+
+theorem str_le_trans {a b c : Str} (h1 : a ≤ b) (h2 : b ≤ c) : a ≤ c := by
+  rw [str_le_iff] at *
+  intro h
+  rcases Std.lt_trichotomy a b with hab | hab | hab
+  · exact h2 (str_lt_trans h hab)
+  · subst hab; exact h2 h
+  · exact h1 hab
+
+theorem mkey_le_trans (a b c : MKey) (hab : MKey.le a b = true) (hbc : MKey.le b c = true) :
+    MKey.le a c = true := by
+  rw [mkey_le_iff] at *
+  rcases hab with h | ⟨e1, h | ⟨e2, h⟩⟩ <;> rcases hbc with h' | ⟨e1', h' | ⟨e2', h'⟩⟩
+  all_goals first
+    | (left; omega)
+    | (right; refine ⟨by omega, ?_⟩; left; omega)
+    | (right; refine ⟨by omega, ?_⟩; right; exact ⟨by omega, str_le_trans h h'⟩)
+
+theorem mkey_le_antisymm (a b : MKey) (hab : MKey.le a b = true) (hba : MKey.le b a = true) :
+    a = b := by
+  rw [mkey_le_iff] at *
+  rcases hab with h | ⟨e1, h | ⟨e2, h⟩⟩ <;> rcases hba with h' | ⟨e1', h' | ⟨e2', h'⟩⟩
+  all_goals first
+    | (exfalso; omega)
+    | skip
+  have : a.id = b.id := List.le_antisymm h h'
+  cases a; cases b; simp_all
+
+/-- What the `order_map` loop does with one id. -/
+inductive OmStep where
+  | skip | fuel | entry (k : MKey)
+
+def omStep (fetch : Id → Option Event) (mm : List (Id × Nat)) (fuel : Nat) (id : Id) : OmStep :=
+  match fetch id with
+  | none => .skip
+  | some ev =>
+    match mainlineDepth fetch mm fuel (some ev) with
+    | .ok d => .entry ⟨d, ev.originServerTs, id⟩
+    | .error .fuel => .fuel
+    | .error _ => .skip
+
+def omEntry (fetch : Id → Option Event) (mm : List (Id × Nat)) (fuel : Nat) (id : Id) : Option (Id × MKey) :=
+  match omStep fetch mm fuel id with
+  | .entry k => some (id, k)
+  | _ => none
+
+def omIsFuel (fetch : Id → Option Event) (mm : List (Id × Nat)) (fuel : Nat) (id : Id) : Bool :=
+  match omStep fetch mm fuel id with
+  | .fuel => true
+  | _ => false
+
+theorem insert_of_not_mem [DecidableEq κ] : ∀ (m : List (κ × β)) (k : κ) (v : β), k ∉ AL.keys m →
+    AL.insert m k v = m ++ [(k, v)]
+  | [], k, v, _ => rfl
+  | (q, w) :: t, k, v, h => by
+    have hq : q ≠ k := by intro e; apply h; simp [AL.keys, e]
+    have : k ∉ AL.keys t := by intro h'; apply h; simp only [AL.keys, List.map_cons, List.mem_cons]; exact .inr h'
+    simp [AL.insert, hq, insert_of_not_mem t k v this]
+
+theorem omEntry_fst {fetch : Id → Option Event} {mm : List (Id × Nat)} {fuel : Nat} {id : Id} {e : Id × MKey}
+    (h : omEntry fetch mm fuel id = some e) : e.1 = id ∧ e.2.id = id := by
+  unfold omEntry at h
+  cases hs : omStep fetch mm fuel id with
+  | skip => rw [hs] at h; cases h
+  | fuel => rw [hs] at h; cases h
+  | entry k =>
+    rw [hs] at h; simp at h; subst h
+    unfold omStep at hs
+    cases hf : fetch id with
+    | none => rw [hf] at hs; cases hs
+    | some ev =>
+      rw [hf] at hs; simp only [] at hs
+      cases hd : mainlineDepth fetch mm fuel (some ev) with
+      | ok d => rw [hd] at hs; simp at hs; subst hs; exact ⟨rfl, rfl⟩
+      | error er => rw [hd] at hs; cases er <;> cases hs
+
+theorem orderMap_eq (fetch : Id → Option Event) (mm : List (Id × Nat)) (fuel : Nat) :
+    ∀ (l : List Id) (m : List (Id × MKey)), l.Nodup → (∀ id ∈ l, id ∉ AL.keys m) →
+    orderMap fetch mm fuel l m =
+      if l.any (omIsFuel fetch mm fuel) = true then .error .fuel
+      else .ok (m ++ l.filterMap (omEntry fetch mm fuel))
+  | [], m, _, _ => by simp [orderMap]
+  | id :: rest, m, hn, hd => by
+    rw [List.nodup_cons] at hn
+    have hd' : ∀ x ∈ rest, x ∉ AL.keys m := fun x hx => hd x (by simp [hx])
+    have ih := orderMap_eq fetch mm fuel rest m hn.2 hd'
+    unfold orderMap
+    cases hf : fetch id with
+    | none =>
+      have hs : omStep fetch mm fuel id = .skip := by simp [omStep, hf]
+      simp only [ih, List.filterMap_cons, omEntry, hs, List.any_cons, omIsFuel, Bool.false_or]
+    | some ev =>
+      simp only []
+      cases hdep : mainlineDepth fetch mm fuel (some ev) with
+      | ok d =>
+        have hs : omStep fetch mm fuel id = .entry ⟨d, ev.originServerTs, id⟩ := by
+          simp [omStep, hf, hdep]
+        have hnk : id ∉ AL.keys m := hd id (by simp)
+        have hd2 : ∀ x ∈ rest, x ∉ AL.keys (AL.insert m id ⟨d, ev.originServerTs, id⟩) := by
+          intro x hx
+          rw [AL.mem_keys_insert]
+          intro h
+          rcases h with h | h
+          · subst h; exact hn.1 hx
+          · exact hd' x hx h
+        simp only []
+        rw [orderMap_eq fetch mm fuel rest _ hn.2 hd2, insert_of_not_mem m id _ hnk]
+        simp only [List.filterMap_cons, omEntry, hs, List.any_cons, omIsFuel, Bool.false_or,
+          List.append_assoc, List.singleton_append]
+      | error er =>
+        cases er with
+        | fuel =>
+          have hs : omStep fetch mm fuel id = .fuel := by simp [omStep, hf, hdep]
+          simp [List.any_cons, omIsFuel, hs]
+        | err =>
+          have hs : omStep fetch mm fuel id = .skip := by simp [omStep, hf, hdep]
+          simp only [ih, List.filterMap_cons, omEntry, hs, List.any_cons, omIsFuel, Bool.false_or]
+        | panic =>
+          have hs : omStep fetch mm fuel id = .skip := by simp [omStep, hf, hdep]
+          simp only [ih, List.filterMap_cons, omEntry, hs, List.any_cons, omIsFuel, Bool.false_or]
+
+/-- **mainlineSort_perm.** The mainline sort of a duplicate-free list does not depend on the order
+of that list nor on the iteration order of `order_map`: its sort key `(depth, ts, id)` is
+injective on ids. -/
+theorem mainlineSort_perm {o o' : Orders} (ho : o.Valid) (ho' : o'.Valid) (fetch : Id → Option Event)
+    (fuel : Nat) {l l' : List Id} (hn : l.Nodup) (hp : l.Perm l') (pl : Option Id) :
+    mainlineSort o fetch fuel l pl = mainlineSort o' fetch fuel l' pl := by
+  have hn' : l'.Nodup := hp.nodup hn
+  unfold mainlineSort
+  have hemp : l.isEmpty = l'.isEmpty := by
+    cases l with
+    | nil => have := List.Perm.eq_nil hp.symm; subst this; rfl
+    | cons a t =>
+      cases l' with
+      | nil => have := hp.length_eq; simp at this
+      | cons b t' => rfl
+  rw [hemp]
+  split
+  · rfl
+  · cases mainlineChain fetch fuel pl [] with
+    | error e => rfl
+    | ok ml =>
+      simp only []
+      rw [orderMap_eq fetch _ fuel l [] hn (by simp [AL.keys]),
+        orderMap_eq fetch _ fuel l' [] hn' (by simp [AL.keys])]
+      have hex : l.any (omIsFuel fetch (mainlineMap ml) fuel) = l'.any (omIsFuel fetch (mainlineMap ml) fuel) := by
+        cases h1 : l.any (omIsFuel fetch (mainlineMap ml) fuel) with
+        | true =>
+          obtain ⟨x, hx, hpx⟩ := List.any_eq_true.mp h1
+          exact (List.any_eq_true.mpr ⟨x, hp.mem_iff.mp hx, hpx⟩).symm
+        | false =>
+          symm; rw [List.any_eq_false] at h1 ⊢
+          intro x hx; exact h1 x (hp.mem_iff.mpr hx)
+      rw [← hex]
+      cases hfu : l.any (omIsFuel fetch (mainlineMap ml) fuel) with
+      | true => simp
+      | false =>
+        simp only [Bool.false_eq_true, if_false, List.nil_append]
+        congr 2
+        have hperm : (o.orderMap.sh (l.filterMap (omEntry fetch (mainlineMap ml) fuel))).Perm
+            (o'.orderMap.sh (l'.filterMap (omEntry fetch (mainlineMap ml) fuel))) :=
+          (ho.orderMap _).trans ((hp.filterMap _).trans (ho'.orderMap _).symm)
+        apply mergeSort_perm_eq (le := fun a b => MKey.le a.2 b.2)
+          (fun a b c => mkey_le_trans a.2 b.2 c.2) (fun a b => mkey_le_total a.2 b.2) _ hperm
+        intro a b ha hb h1 h2
+        have hk := mkey_le_antisymm a.2 b.2 h1 h2
+        have ha' := (ho.orderMap _).mem_iff.mp ha
+        have hb' := (ho.orderMap _).mem_iff.mp hb
+        obtain ⟨x, _, hx⟩ := List.mem_filterMap.mp ha'
+        obtain ⟨y, _, hy⟩ := List.mem_filterMap.mp hb'
+        have ea := omEntry_fst hx
+        have eb := omEntry_fst hy
+        have : a.1 = b.1 := by rw [ea.1, eb.1, ← ea.2, ← eb.2, hk]
+        cases a; cases b; simp_all
+
+/-! ### the spec's definitions in the same order-free terms -/
+
+theorem keys_unconflicted_nodup (sets : List StateMap) : (AL.keys (unconflicted sets)).Nodup := by
+  unfold unconflicted
+  have hk : (keysOf sets).Nodup := nodup_dedup _
+  generalize keysOf sets = ks at hk
+  induction ks with
+  | nil => simp [AL.keys]
+  | cons k t ih =>
+    rw [List.nodup_cons] at hk
+    simp only [List.filterMap_cons]
+    split
+    · exact ih hk.2
+    next b hb =>
+      simp only [AL.keys, List.map_cons, List.nodup_cons]
+      refine ⟨?_, ih hk.2⟩
+      intro hm
+      obtain ⟨x, hx, hxe⟩ := List.mem_map.mp hm
+      obtain ⟨k', hk', he⟩ := List.mem_filterMap.mp hx
+      have e1 : b.1 = k := by
+        cases sets with
+        | nil => simp at hb
+        | cons s rest =>
+          simp only [] at hb
+          split at hb
+          · split at hb
+            · simp at hb; rw [← hb]
+            · cases hb
+          · cases hb
+      have e2 : x.1 = k' := by
+        cases sets with
+        | nil => simp at he
+        | cons s rest =>
+          simp only [] at he
+          split at he
+          · split at he
+            · simp at he; rw [← he]
+            · cases he
+          · cases he
+      rw [e2, e1] at hxe
+      subst hxe
+      exact hk.1 hk'
+
+theorem mem_unconflicted {sets : List StateMap} {k : SKey} {v : Id} :
+    (k, v) ∈ unconflicted sets ↔ Unconf sets k v := by
+  unfold unconflicted Unconf
+  simp only [List.mem_filterMap]
+  constructor
+  · rintro ⟨k', hk', he⟩
+    cases sets with
+    | nil => simp at he
+    | cons s rest =>
+      simp only [] at he
+      cases hg : AL.get s k' with
+      | none => rw [hg] at he; cases he
+      | some v' =>
+        rw [hg] at he
+        simp only [] at he
+        split at he
+        next hall =>
+          simp only [Option.some.injEq, Prod.mk.injEq] at he
+          obtain ⟨rfl, rfl⟩ := he
+          refine ⟨by simp, ?_⟩
+          intro s' hs'
+          rcases List.mem_cons.mp hs' with rfl | hs'
+          · exact hg
+          · rw [List.all_eq_true] at hall
+            simpa using hall s' hs'
+        next => cases he
+  · rintro ⟨hne, hall⟩
+    cases sets with
+    | nil => exact absurd rfl hne
+    | cons s rest =>
+      refine ⟨k, ?_, ?_⟩
+      · unfold keysOf
+        rw [mem_dedup]
+        have := AL.get_some_mem (hall s (by simp))
+        exact List.mem_map.mpr ⟨(k, v), List.mem_flatten.mpr ⟨s, by simp, this⟩, rfl⟩
+      · simp only [hall s (by simp)]
+        have : rest.all (fun s' => decide (AL.get s' k = some v)) = true := by
+          rw [List.all_eq_true]
+          intro s' hs'; simpa using hall s' (by simp [hs'])
+        simp [this]
+
+theorem get_unconflicted {sets : List StateMap} {k : SKey} {v : Id} :
+    AL.get (unconflicted sets) k = some v ↔ Unconf sets k v := by
+  rw [← mem_unconflicted]
+  exact ⟨AL.get_some_mem, AL.get_of_mem_nodup (keys_unconflicted_nodup sets)⟩
+
+theorem mem_conflictedSet {sets : List StateMap} (wf : SetsWF sets) (id : Id) :
+    id ∈ conflictedSet sets ↔ ∃ k, (∃ s ∈ sets, AL.get s k = some id) ∧ ¬ Unconf sets k id := by
+  unfold conflictedSet
+  rw [mem_dedup]
+  simp only [List.mem_map, List.mem_filter, List.mem_flatten, ne_eq, decide_not, Bool.not_eq_true',
+    decide_eq_false_iff_not]
+  constructor
+  · rintro ⟨⟨k, v⟩, ⟨⟨s, hs, hm⟩, hne⟩, rfl⟩
+    exact ⟨k, ⟨s, hs, (mem_iff_get (wf s hs)).mp hm⟩, fun hu => hne (get_unconflicted.mpr hu)⟩
+  · rintro ⟨k, ⟨s, hs, hg⟩, hnu⟩
+    exact ⟨(k, id), ⟨⟨s, hs, AL.get_some_mem hg⟩, fun h => hnu (get_unconflicted.mp h)⟩, rfl⟩
+
+theorem conflictedSet_isEmpty {sets : List StateMap} (wf : SetsWF sets) :
+    conflictedSet sets = [] ↔ ∀ k id, (∃ s ∈ sets, AL.get s k = some id) → Unconf sets k id := by
+  constructor
+  · intro h k id hex
+    apply Classical.byContradiction
+    intro hnu
+    have := (mem_conflictedSet wf id).mpr ⟨k, hex, hnu⟩
+    rw [h] at this; cases this
+  · intro h
+    cases hc : conflictedSet sets with
+    | nil => rfl
+    | cons a t =>
+      have : a ∈ conflictedSet sets := by rw [hc]; simp
+      obtain ⟨k, hex, hnu⟩ := (mem_conflictedSet wf a).mp this
+      exact absurd (h k a hex) hnu
+
+theorem mem_fullConflictedSet {fetch : Id → Option Event} {sets : List StateMap} (wf : SetsWF sets)
+    {chains : List (List Id)} (id : Id) :
+    id ∈ fullConflictedSet fetch sets chains ↔
+      (id ∈ conflictedSet sets ∨ id ∈ authDifference chains) ∧ (fetch id).isSome = true := by
+  unfold fullConflictedSet
+  rw [mem_dedup, List.mem_filter, List.mem_append]
+/-! ### assembling `resolve` -/
+
+theorem option_ext {a b : Option α} (h : ∀ v, a = some v ↔ b = some v) : a = b := by
+  cases a with
+  | none =>
+    cases b with
+    | none => rfl
+    | some v => exact ((h v).mpr rfl).symm ▸ rfl
+  | some v => exact ((h v).mp rfl).symm
+
+theorem sepFold_clean_keys (n : Nat) : ∀ (T : List (SKey × (Id × Nat))) (acc),
+    (AL.keys acc.1).Nodup → (AL.keys (sepFold n T acc).1).Nodup := by
+  intro T
+  induction T with
+  | nil => intro acc h; exact h
+  | cons t T ih =>
+    intro acc h
+    simp only [sepFold, List.foldl_cons]
+    apply ih
+    simp only [separateStep]
+    split
+    · exact AL.keys_nodup_insert _ _ _ h
+    · exact h
+
+theorem separate_clean_keys (o : Orders) (sets : List StateMap) :
+    (AL.keys (separate o sets).1).Nodup := by
+  rw [separate_eq_sepFold]; exact sepFold_clean_keys _ _ _ (by simp [AL.keys])
+
+/-- The two argument lists describe the same state sets: each map of one occurs, up to storage
+order, in the other (in particular: any permutation of the list and of every map). -/
+structure SetsEquiv (sets sets' : List StateMap) : Prop where
+  nil : sets = [] ↔ sets' = []
+  fwd : ∀ s ∈ sets, ∃ s' ∈ sets', s.Perm s'
+  bwd : ∀ s' ∈ sets', ∃ s ∈ sets, s.Perm s'
+
+/-- The two argument lists describe the same auth-chain sets. -/
+structure ChainsEquiv (chains chains' : List (List Id)) : Prop where
+  fwd : ∀ c ∈ chains, ∃ c' ∈ chains', ∀ x, x ∈ c ↔ x ∈ c'
+  bwd : ∀ c' ∈ chains', ∃ c ∈ chains, ∀ x, x ∈ c ↔ x ∈ c'
+
+theorem SetsEquiv.unconf {sets sets' : List StateMap} (h : SetsEquiv sets sets') (wf : SetsWF sets)
+    (k : SKey) (v : Id) : Unconf sets k v ↔ Unconf sets' k v := by
+  unfold Unconf
+  constructor
+  · rintro ⟨hne, hall⟩
+    refine ⟨fun e => hne (h.nil.mpr e), ?_⟩
+    intro s' hs'
+    obtain ⟨s, hs, hp⟩ := h.bwd s' hs'
+    rw [← AL.get_perm (wf s hs) hp]; exact hall s hs
+  · rintro ⟨hne, hall⟩
+    refine ⟨fun e => hne (h.nil.mp e), ?_⟩
+    intro s hs
+    obtain ⟨s', hs', hp⟩ := h.fwd s hs
+    rw [AL.get_perm (wf s hs) hp]; exact hall s' hs'
+
+theorem SetsEquiv.has {sets sets' : List StateMap} (h : SetsEquiv sets sets') (wf : SetsWF sets)
+    (k : SKey) (v : Id) : (∃ s ∈ sets, AL.get s k = some v) ↔ (∃ s' ∈ sets', AL.get s' k = some v) := by
+  constructor
+  · rintro ⟨s, hs, hg⟩
+    obtain ⟨s', hs', hp⟩ := h.fwd s hs
+    exact ⟨s', hs', by rw [← AL.get_perm (wf s hs) hp]; exact hg⟩
+  · rintro ⟨s', hs', hg⟩
+    obtain ⟨s, hs, hp⟩ := h.bwd s' hs'
+    exact ⟨s, hs, by rw [AL.get_perm (wf s hs) hp]; exact hg⟩
+
+theorem ChainsEquiv.diff {chains chains' : List (List Id)} (h : ChainsEquiv chains chains') (id : Id) :
+    ((∃ c ∈ chains, id ∈ c) ∧ (∃ c ∈ chains, id ∉ c)) ↔
+    ((∃ c ∈ chains', id ∈ c) ∧ (∃ c ∈ chains', id ∉ c)) := by
+  constructor
+  · rintro ⟨⟨c, hc, h1⟩, ⟨d, hd, h2⟩⟩
+    obtain ⟨c', hc', e1⟩ := h.fwd c hc
+    obtain ⟨d', hd', e2⟩ := h.fwd d hd
+    exact ⟨⟨c', hc', (e1 id).mp h1⟩, ⟨d', hd', fun x => h2 ((e2 id).mpr x)⟩⟩
+  · rintro ⟨⟨c', hc', h1⟩, ⟨d', hd', h2⟩⟩
+    obtain ⟨c, hc, e1⟩ := h.bwd c' hc'
+    obtain ⟨d, hd, e2⟩ := h.bwd d' hd'
+    exact ⟨⟨c, hc, (e1 id).mpr h1⟩, ⟨d, hd, fun x => h2 ((e2 id).mp x)⟩⟩
+
+theorem children_congr (fetch : Id → Option Event) {A A' : List Id} (h : ∀ x, x ∈ A ↔ x ∈ A') (n : Id) :
+    children fetch A n = children fetch A' n := by
+  unfold children
+  apply List.filter_congr
+  intro x _
+  exact decide_eq_decide.mpr (h x)
+
+theorem Path.congr {fetch : Id → Option Event} {A A' : List Id} (h : ∀ x, x ∈ A ↔ x ∈ A') {r n : Id}
+    (hp : Path fetch A r n) : Path fetch A' r n := by
+  induction hp with
+  | refl => exact .refl
+  | step _ hc ih => exact .step ih (by rw [← children_congr fetch h]; exact hc)
+
+/-- Membership in the model's full conflicted set is membership in the spec's. -/
+theorem mem_allConf_iff {o : Orders} (ho : o.Valid) {fetch : Id → Option Event} {sets : List StateMap}
+    (wf : SetsWF sets) {chains : List (List Id)} (hc : ∀ c ∈ chains, c.Nodup) (id : Id) :
+    id ∈ fullConflicted o fetch (authChainDiff o chains) (separate o sets).2 ↔
+      id ∈ fullConflictedSet fetch sets chains := by
+  rw [mem_fullConflicted ho, mem_fullConflictedSet wf, mem_authChainDiff ho hc, mem_authDifference,
+    separate_conf ho wf, mem_conflictedSet wf]
+  constructor
+  · rintro ⟨h1 | h1, h2⟩; exact ⟨.inr h1, h2⟩; exact ⟨.inl h1, h2⟩
+  · rintro ⟨h1 | h1, h2⟩; exact ⟨.inr h1, h2⟩; exact ⟨.inl h1, h2⟩
+
+theorem fullConflictedSet_congr {fetch : Id → Option Event} {sets sets' : List StateMap}
+    (wf : SetsWF sets) (wf' : SetsWF sets') (hs : SetsEquiv sets sets')
+    {chains chains' : List (List Id)} (hce : ChainsEquiv chains chains') (id : Id) :
+    id ∈ fullConflictedSet fetch sets chains ↔ id ∈ fullConflictedSet fetch sets' chains' := by
+  rw [mem_fullConflictedSet wf, mem_fullConflictedSet wf', mem_conflictedSet wf, mem_conflictedSet wf',
+    mem_authDifference, mem_authDifference, hce.diff id]
+  constructor
+  · rintro ⟨⟨k, h1, h2⟩ | h, h3⟩
+    · exact ⟨.inl ⟨k, (hs.has wf k id).mp h1, fun u => h2 ((hs.unconf wf k id).mpr u)⟩, h3⟩
+    · exact ⟨.inr h, h3⟩
+  · rintro ⟨⟨k, h1, h2⟩ | h, h3⟩
+    · exact ⟨.inl ⟨k, (hs.has wf k id).mpr h1, fun u => h2 ((hs.unconf wf k id).mp u)⟩, h3⟩
+    · exact ⟨.inr h, h3⟩
+
+/-- `resolve` from the first iterative auth check on. -/
+def resolveTail (p : Params) (o : Orders) (fetch : Id → Option Event) (fuel : Nat) (allConf : List Id)
+    (clean : StateMap) (sortedControl : List Id) : Except Fail StateMap :=
+  match iterativeAuthCheck p fetch sortedControl clean with
+  | .error e => .error e
+  | .ok resolvedControl =>
+    let toResolve := allConf.filter (fun id => !sortedControl.contains id)
+    let powerEvent := AL.get resolvedControl (tPowerLevels, [])
+    match mainlineSort o fetch fuel toResolve powerEvent with
+    | .error e => .error e
+    | .ok sortedLeft =>
+      match iterativeAuthCheck p fetch sortedLeft resolvedControl with
+      | .error e => .error e
+      | .ok resolved => .ok (extend resolved clean)
+
+theorem resolve_eq_tail (p : Params) (o : Orders) (store : List Event) (sets : List StateMap)
+    (chains : List (List Id)) :
+    resolve p o store sets chains =
+      if (separate o sets).2.isEmpty then .ok (separate o sets).1
+      else
+        match powerSort p o (fetchOf store)
+            (fullConflicted o (fetchOf store) (authChainDiff o chains) (separate o sets).2)
+            ((fullConflicted o (fetchOf store) (authChainDiff o chains) (separate o sets).2).filter
+              (isPowerEventId p (fetchOf store))) with
+        | .error e => .error e
+        | .ok sc => resolveTail p o (fetchOf store) (store.length + 1)
+            (fullConflicted o (fetchOf store) (authChainDiff o chains) (separate o sets).2)
+            (separate o sets).1 sc := by
+  unfold resolve resolveTail
+  rfl
+
+theorem resolveTail_congr (p : Params) {o o' : Orders} (ho : o.Valid) (ho' : o'.Valid)
+    (fetch : Id → Option Event) (fuel : Nat) {A A' : List Id} (hA : A.Nodup) (hp : A.Perm A')
+    {clean clean' : StateMap} (hk : (AL.keys clean).Nodup) (hk' : (AL.keys clean').Nodup)
+    (hc : StEq clean clean') (sc : List Id) :
+    ResEq (resolveTail p o fetch fuel A clean sc) (resolveTail p o' fetch fuel A' clean' sc) := by
+  unfold resolveTail
+  have h1 := iterativeAuthCheck_congr p fetch sc hc
+  cases r1 : iterativeAuthCheck p fetch sc clean with
+  | error e =>
+    cases r1' : iterativeAuthCheck p fetch sc clean' with
+    | error e' => rw [r1, r1'] at h1; exact h1
+    | ok x => rw [r1, r1'] at h1; exact h1.elim
+  | ok rc =>
+    cases r1' : iterativeAuthCheck p fetch sc clean' with
+    | error e' => rw [r1, r1'] at h1; exact h1.elim
+    | ok rc' =>
+      rw [r1, r1'] at h1
+      have hst : StEq rc rc' := h1
+      simp only []
+      rw [← hst (tPowerLevels, [])]
+      rw [mainlineSort_perm ho ho' fetch fuel (List.Nodup.sublist List.filter_sublist hA)
+        (hp.filter _) (AL.get rc (tPowerLevels, []))]
+      cases mainlineSort o' fetch fuel (A'.filter (fun id => !sc.contains id)) (AL.get rc (tPowerLevels, [])) with
+      | error e => exact rfl
+      | ok sl =>
+        simp only []
+        have h2 := iterativeAuthCheck_congr p fetch sl hst
+        cases r2 : iterativeAuthCheck p fetch sl rc with
+        | error e =>
+          cases r2' : iterativeAuthCheck p fetch sl rc' with
+          | error e' => rw [r2, r2'] at h2; exact h2
+          | ok x => rw [r2, r2'] at h2; exact h2.elim
+        | ok rs =>
+          cases r2' : iterativeAuthCheck p fetch sl rc' with
+          | error e' => rw [r2, r2'] at h2; exact h2.elim
+          | ok rs' =>
+            rw [r2, r2'] at h2
+            have hst2 : StEq rs rs' := h2
+            intro k
+            rw [extend_get clean rs k hk, extend_get clean' rs' k hk', hc k, hst2 k]
+
+/-- Room well-formedness needed by the power sort (DESIGN C06 `WF`): every event of the full
+conflicted set is known, cites exactly one create event `c0` and at most one power-levels event. In
+particular the create event itself is not in the full conflicted set. -/
+def RoomWF (store : List Event) (sets : List StateMap) (chains : List (List Id)) (c0 : Event) : Prop :=
+  ∀ n ∈ fullConflictedSet (fetchOf store) sets chains,
+    ∃ e, fetchOf store n = some e ∧ EventWF (fetchOf store) c0 e
+
+theorem resolve_congr (p : Params) {o o' : Orders} (ho : o.Valid) (ho' : o'.Valid) (store : List Event)
+    {sets sets' : List StateMap} (wf : SetsWF sets) (wf' : SetsWF sets') (hs : SetsEquiv sets sets')
+    {chains chains' : List (List Id)} (hcn : ∀ c ∈ chains, c.Nodup) (hcn' : ∀ c ∈ chains', c.Nodup)
+    (hce : ChainsEquiv chains chains') {c0 : Event} (hwf : RoomWF store sets chains c0) :
+    ResEq (resolve p o store sets chains) (resolve p o' store sets' chains') := by
+  rw [resolve_eq_tail, resolve_eq_tail]
+  -- unconflicted maps agree
+  have hclean : StEq (separate o sets).1 (separate o' sets').1 := by
+    intro k
+    apply option_ext
+    intro v
+    rw [separate_clean ho wf, separate_clean ho' wf', hs.unconf wf]
+  -- emptiness of the conflicted maps agrees
+  have hemp : (separate o sets).2.isEmpty = (separate o' sets').2.isEmpty := by
+    have e1 := separate_conf_nil ho wf
+    have e2 := separate_conf_nil ho' wf'
+    have : (separate o sets).2 = [] ↔ (separate o' sets').2 = [] := by
+      rw [e1, e2]
+      constructor
+      · intro h k id hex; exact (hs.unconf wf k id).mp (h k id ((hs.has wf k id).mpr hex))
+      · intro h k id hex; exact (hs.unconf wf k id).mpr (h k id ((hs.has wf k id).mp hex))
+    cases h1 : (separate o sets).2 with
+    | nil => rw [this.mp h1]
+    | cons a t =>
+      cases h2 : (separate o' sets').2 with
+      | nil => rw [this.mpr h2] at h1; cases h1
+      | cons b t' => rfl
+  rw [← hemp]
+  split
+  · exact hclean
+  · -- full conflicted sets
+    obtain ⟨A, hAdef⟩ : ∃ A, A = fullConflicted o (fetchOf store) (authChainDiff o chains) (separate o sets).2 := ⟨_, rfl⟩
+    obtain ⟨A', hA'def⟩ : ∃ A', A' = fullConflicted o' (fetchOf store) (authChainDiff o' chains') (separate o' sets').2 := ⟨_, rfl⟩
+    rw [← hAdef, ← hA'def]
+    have hAn : A.Nodup := by rw [hAdef]; exact nodup_fullConflicted ho _ _ _
+    have hAn' : A'.Nodup := by rw [hA'def]; exact nodup_fullConflicted ho' _ _ _
+    have hAmem : ∀ x, x ∈ A ↔ x ∈ fullConflictedSet (fetchOf store) sets chains := by
+      intro x; rw [hAdef]; exact mem_allConf_iff ho wf hcn x
+    have hAmem' : ∀ x, x ∈ A' ↔ x ∈ fullConflictedSet (fetchOf store) sets chains := by
+      intro x; rw [hA'def, mem_allConf_iff ho' wf' hcn' x]
+      exact (fullConflictedSet_congr wf wf' hs hce x).symm
+    have hAA : ∀ x, x ∈ A ↔ x ∈ A' := fun x => (hAmem x).trans (hAmem' x).symm
+    have hperm : A.Perm A' := (List.perm_ext_iff_of_nodup hAn hAn').mpr hAA
+    -- a representation of the power graph
+    have hwfA : ∀ n ∈ A, ∃ e, fetchOf store n = some e ∧ EventWF (fetchOf store) c0 e :=
+      fun n hn => hwf n ((hAmem n).mp hn)
+    have hwfA' : ∀ n ∈ A', ∃ e, fetchOf store n = some e ∧ EventWF (fetchOf store) c0 e :=
+      fun n hn => hwf n ((hAmem' n).mp hn)
+    have hctl : ∀ c ∈ A.filter (isPowerEventId p (fetchOf store)), c ∈ A := fun c hc => (List.mem_filter.mp hc).1
+    have hctl' : ∀ c ∈ A'.filter (isPowerEventId p (fetchOf store)), c ∈ A' := fun c hc => (List.mem_filter.mp hc).1
+    have inv0 : GInv (fetchOf store) A [] := ⟨by simp [Graph.nodes], by intro n es h; cases h⟩
+    have cl0 : Closed (fetchOf store) A [] [] := by intro n hn; simp [Graph.nodes] at hn
+    obtain ⟨G, hb⟩ := buildGraph_total hAn _ [] hctl inv0 cl0
+    obtain ⟨inv, _, hnodes⟩ := buildGraph_ok _ [] G hb inv0 cl0
+    have hGn : ∀ n, n ∈ G.nodes ↔ ∃ r ∈ A.filter (isPowerEventId p (fetchOf store)), Path (fetchOf store) A r n := by
+      intro n; rw [hnodes]; simp [Graph.nodes]
+    have hGe : ∀ n es, (n, es) ∈ G → ∀ x, x ∈ es ↔ x ∈ children (fetchOf store) A n :=
+      fun n es h x => (inv.edges n es h).2 x
+    have hGn' : ∀ n, n ∈ G.nodes ↔ ∃ r ∈ A'.filter (isPowerEventId p (fetchOf store)), Path (fetchOf store) A' r n := by
+      intro n; rw [hGn]
+      constructor
+      · rintro ⟨r, hr, hp⟩
+        obtain ⟨h1, h2⟩ := List.mem_filter.mp hr
+        exact ⟨r, List.mem_filter.mpr ⟨(hAA r).mp h1, h2⟩, hp.congr hAA⟩
+      · rintro ⟨r, hr, hp⟩
+        obtain ⟨h1, h2⟩ := List.mem_filter.mp hr
+        exact ⟨r, List.mem_filter.mpr ⟨(hAA r).mpr h1, h2⟩, hp.congr (fun x => (hAA x).symm)⟩
+    have hGe' : ∀ n es, (n, es) ∈ G → ∀ x, x ∈ es ↔ x ∈ children (fetchOf store) A' n := by
+      intro n es h x; rw [← children_congr _ hAA]; exact hGe n es h x
+    rw [powerSort_eq ho hAn hctl hwfA G inv.nodup hGn hGe,
+      powerSort_eq ho' hAn' hctl' hwfA' G inv.nodup hGn' hGe']
+    by_cases hall : ∀ n ∈ G.nodes, (specPL p (fetchOf store) n).isSome = true
+    · simp only [if_pos hall]
+      exact resolveTail_congr p ho ho' _ _ hAn hperm (separate_clean_keys o sets)
+        (separate_clean_keys o' sets') hclean _
+    · simp only [if_neg hall]
+      exact rfl
+
+theorem SetsWF.of_perm {sets sets' : List StateMap} (σ : StateMap → StateMap) (hσ : ∀ s, (σ s).Perm s)
+    (hp : sets'.Perm (sets.map σ)) (wf : SetsWF sets) : SetsWF sets' := by
+  intro s' hs'
+  obtain ⟨s, hs, rfl⟩ := List.mem_map.mp (hp.mem_iff.mp hs')
+  have : (AL.keys (σ s)).Perm (AL.keys s) := (hσ s).map _
+  exact this.symm.nodup (wf s hs)
+
+theorem SetsEquiv.of_perm {sets sets' : List StateMap} (σ : StateMap → StateMap) (hσ : ∀ s, (σ s).Perm s)
+    (hp : sets'.Perm (sets.map σ)) : SetsEquiv sets sets' := by
+  refine ⟨?_, ?_, ?_⟩
+  · constructor
+    · intro h; subst h; exact List.Perm.eq_nil hp
+    · intro h; subst h
+      have := (List.Perm.eq_nil hp.symm)
+      cases sets with
+      | nil => rfl
+      | cons a t => simp at this
+  · intro s hs
+    exact ⟨σ s, hp.mem_iff.mpr (List.mem_map_of_mem hs), (hσ s).symm⟩
+  · intro s' hs'
+    obtain ⟨s, hs, rfl⟩ := List.mem_map.mp (hp.mem_iff.mp hs')
+    exact ⟨s, hs, (hσ s).symm⟩
+
+theorem ChainsEquiv.of_perm {chains chains' : List (List Id)} (τ : List Id → List Id)
+    (hτ : ∀ c, (τ c).Perm c) (hp : chains'.Perm (chains.map τ)) : ChainsEquiv chains chains' := by
+  refine ⟨?_, ?_⟩
+  · intro c hc
+    exact ⟨τ c, hp.mem_iff.mpr (List.mem_map_of_mem hc), fun x => ((hτ c).mem_iff).symm⟩
+  · intro c' hc'
+    obtain ⟨c, hc, rfl⟩ := List.mem_map.mp (hp.mem_iff.mp hc')
+    exact ⟨c, hc, fun x => ((hτ c).mem_iff).symm⟩
+
+theorem chains_nodup_of_perm {chains chains' : List (List Id)} (τ : List Id → List Id)
+    (hτ : ∀ c, (τ c).Perm c) (hp : chains'.Perm (chains.map τ)) (hn : ∀ c ∈ chains, c.Nodup) :
+    ∀ c' ∈ chains', c'.Nodup := by
+  intro c' hc'
+  obtain ⟨c, hc, rfl⟩ := List.mem_map.mp (hp.mem_iff.mp hc')
+  exact (hτ c).symm.nodup (hn c hc)
+
+/-- Without conflict `resolve` returns the unconflicted map (the early return). -/
+theorem resolve_noconflict (p : Params) {o : Orders} (ho : o.Valid) (store : List Event)
+    {sets : List StateMap} (wf : SetsWF sets) (chains : List (List Id))
+    (h : ∀ k id, (∃ s ∈ sets, AL.get s k = some id) → Unconf sets k id) :
+    ∃ m, resolve p o store sets chains = .ok m ∧ ∀ k v, AL.get m k = some v ↔ Unconf sets k v := by
+  refine ⟨(separate o sets).1, ?_, fun k v => separate_clean ho wf k v⟩
+  rw [resolve_eq_tail, (separate_conf_nil ho wf).mpr h]
+  rfl
+
+/-- All the state sets are (up to storage order) the one map `s`. -/
+theorem unconf_of_identical {sets : List StateMap} {s : StateMap} (hs : (AL.keys s).Nodup)
+    (hne : sets ≠ []) (hall : ∀ s' ∈ sets, s'.Perm s) (k : SKey) (v : Id) :
+    Unconf sets k v ↔ AL.get s k = some v := by
+  unfold Unconf
+  constructor
+  · rintro ⟨_, h⟩
+    cases sets with
+    | nil => exact absurd rfl hne
+    | cons a t =>
+      have := h a (by simp)
+      have hp := hall a (by simp)
+      rw [AL.get_perm hs hp.symm]; exact this
+  · intro h
+    refine ⟨hne, fun s' hs' => ?_⟩
+    rw [← AL.get_perm hs (hall s' hs').symm]; exact h
 end Ruma.StateRes
